@@ -28,8 +28,18 @@ import Cx.Proofs.Utf8
                                                 `info` says — the matcher checks the wildcard span, `wildcardOK_iff`)
         detectAnchoredLiteral_fragment (case-sensitive literals, ASCII-tested bridge), detectAnchoredLiteral_wf,
         anchoredFrag_wildcardNL, anchoredLiteral_exact   (no hypothesis beyond detection)
-  (4) BranchDispatcher   (nfa/branch_dispatch.go)
-        BranchDispatcher.isMatch_eq, BranchDispatcher.search_eq_spec (hyp. `WF`), branchDispatcher_exact (hyp. `bdFrag`)
+  (4) BranchDispatcher   (nfa/branch_dispatch.go; proofs at the END of the file, after the general `Ref` lemmas they use)
+        StepSem, run_star_step / run_rep_step   the reference matcher on repetitions of any one-byte element
+        decode_encode_at                        encoding bytes of a scalar ≠ U+FFFD stand at `pos` ⇔ that rune is decoded there
+        BranchMatcher.match_eq (`match` = `matchFrom … 0`), AddSem, addLiteral_sem, addList_sem, rep_sem,
+        add_sem                                 what `add` appends to the matcher = what the reference matcher does on the node
+        add_tables, claimBytes_spec, newBranchLoop_inv, newBranchDispatcher_wf (`BranchDispatcher.WF`)
+        BranchDispatcher.match_unique           at most one branch matches at offset 0
+        BranchDispatcher.search_eq_first        Search = first (= only) matching branch
+        run_alts_built, run_wrapped_alts, matchAt_bd     reference semantics of `\A(b1|…|bk)`
+        isBranchDispatchPattern_eq              predicate = "meta builds a dispatcher"
+        branchDispatcher_eq_reference, branchDispatcher_isMatch_eq_reference
+                                                (hyps. `FoldSound hasFold`, `RefDepthOK re`: neither restricts the dispatcher)
   (5) ExtractFirstBytes  (nfa/firstbytes.go)
         extract_sound, firstBytes_filter_sound (hyp. `fbFrag`)
 -/
@@ -1813,62 +1823,7 @@ theorem anchoredLiteral_exact (re : Re) (info : AnchoredLiteralInfo) (hd : detec
   rw [← anchoredFrag_wildcardNL re info hf]
   exact ⟨hf, matchAnchoredLiteral_iff_spec info hwf h, fun a => anchoredFindAt_eq_spec info hwf h a⟩
 
-/-! ## BranchDispatcher -/
-namespace BranchDispatcher
-
-/-- `IsMatch` is `Search(...).found` on every input, for every dispatcher -/
-theorem isMatch_eq (d : BranchDispatcher) (h : Bytes) : d.isMatch h = (d.search h).isSome := by
-  unfold isMatch search
-  split
-  · split <;> simp [*]
-  · simp only []
-    split
-    · rfl
-    · split
-      · split
-        · rfl
-        · rename_i hb
-          split
-          · rename_i hb; rw [hb]; rfl
-          · rename_i hb; rw [Bool.not_eq_true] at hb; rw [hb]; rfl
-      · split
-        · split
-          · simp only [Option.isSome_some, decide_eq_true_eq]; assumption
-          · simp only [Option.isSome_none, decide_eq_false_iff_not]; assumption
-        · rfl
-
-theorem countPrefix_eq (t : Table) (h : Bytes) (k i : Nat) (hk : i + k = h.size) :
-    countPrefix t h k i = runLen t.mem h i := by
-  induction k generalizing i with
-  | zero => rw [countPrefix, runLen_ge t.mem h i (by omega)]
-  | succ k ih =>
-    rw [countPrefix, runLen_lt t.mem h i (by omega)]
-    split
-    · rw [ih (i+1) (by omega)]
-    · rfl
-
-end BranchDispatcher
-
-namespace Branch
-
-theorem matchLen_lit (h : Bytes) (bs : List Nat) :
-    matchLen h (lit bs) = if bs.length ≤ h.size ∧ h.toList.take bs.length = bs then some bs.length else none := rfl
-theorem matchLen_cls (h : Bytes) (mem : Nat → Bool) :
-    matchLen h (clsPlus mem) = if 1 ≤ runLen mem h 0 then some (runLen mem h 0) else none := rfl
-end Branch
-
-/-- the dispatcher's tables describe the branch list `bs` -/
-structure BranchDispatcher.WF (d : BranchDispatcher) (bs : List Branch) : Prop where
-  noEmpty : d.canMatchEmpty = false
-  matcher : ∀ i (hi : i < bs.length),
-    match bs[i] with
-    | .lit l => l ≠ [] ∧ (d.branchMatchers.getD i {}).literal.toList = l
-    | .clsPlus mem =>
-      (d.branchMatchers.getD i {}).literal.size = 0 ∧ (d.branchMatchers.getD i {}).hasCharClass = true ∧
-      (d.branchMatchers.getD i {}).minMatch = 1 ∧ ∀ x, (d.branchMatchers.getD i {}).charClass.mem x = mem x
-  /-- `dispatch[x]` is `-1` or a branch index, and it is `i` exactly when `x` can start branch `i` -/
-  range : ∀ x, d.dispatch.getD x (-1) = -1 ∨ ∃ i, i < bs.length ∧ d.dispatch.getD x (-1) = (i : Int)
-  dispatch : ∀ x i (hi : i < bs.length), d.dispatch.getD x (-1) = (i : Int) ↔ bs[i].first x
+/-! ## BranchDispatcher (helpers; the exactness proof is at the end of the file) -/
 
 theorem findSome?_unique {α β : Type} (f : α → Option β) (l : List α) (i : Nat) (hi : i < l.length)
     (hother : ∀ j (hj : j < l.length), j ≠ i → f l[j] = none) : l.findSome? f = f l[i] := by
@@ -1897,107 +1852,6 @@ theorem findSome?_unique {α β : Type} (f : α → Option β) (l : List α) (i 
       intro j hj hne
       have := hother (j+1) (by simp; omega) (by omega)
       simpa using this
-
-theorem Branch.matchLen_none_of_not_first (b : Branch) (h : Bytes) (hpos : 0 < h.size)
-    (hnf : ¬ b.first (h.at 0)) (hne : ∀ l, b = .lit l → l ≠ []) : b.matchLen h = none := by
-  cases b with
-  | lit l =>
-    rw [matchLen_lit, if_neg]
-    rintro ⟨hlen, htake⟩
-    apply hnf
-    unfold first
-    cases l with
-    | nil => exact absurd rfl (hne [] rfl)
-    | cons a l =>
-      rw [show h.toList = h.toList.drop 0 from rfl, drop_eq_cons h 0 hpos] at htake
-      simp only [List.length_cons, List.take_succ_cons, List.cons.injEq] at htake
-      simp [htake.1]
-  | clsPlus mem =>
-    rw [matchLen_cls, if_neg]
-    unfold first at hnf
-    rw [runLen_lt mem h 0 hpos, if_neg hnf]
-    omega
-
-/-- **`BranchDispatcher.Search` is exact** for `\\A(?:b0|…|bk)` with literal / `cls+` branches whenever its tables
-    describe those branches (`WF`). -/
-theorem BranchDispatcher.search_eq_spec (d : BranchDispatcher) (bs : List Branch) (wf : d.WF bs) (h : Bytes) :
-    d.search h = altFind bs h := by
-  have hlitne : ∀ i (hi : i < bs.length) l, bs[i] = .lit l → l ≠ [] := by
-    intro i hi l hl
-    have := wf.matcher i hi
-    rw [hl] at this
-    exact this.1
-  unfold search altFind
-  by_cases hz : h.size = 0
-  · rw [if_pos hz, wf.noEmpty]
-    simp only [Bool.false_eq_true, if_false]
-    rw [List.findSome?_eq_none_iff.mpr, Option.map_none]
-    intro b hb
-    obtain ⟨i, hi, rfl⟩ := List.getElem_of_mem hb
-    cases hbi : bs[i] with
-    | lit l =>
-      rw [Branch.matchLen_lit, if_neg]
-      rintro ⟨hlen, _⟩
-      have := hlitne i hi l hbi
-      have : l.length ≠ 0 := fun hc => this (List.length_eq_zero_iff.mp hc)
-      omega
-    | clsPlus mem =>
-      rw [Branch.matchLen_cls, if_neg]
-      rw [runLen_ge mem h 0 (by omega)]; omega
-  · rw [if_neg hz]
-    have hpos : 0 < h.size := by omega
-    simp only []
-    rcases wf.range (h.at 0) with hneg | ⟨i, hi, hidx⟩
-    · rw [hneg, if_pos (by decide)]
-      rw [List.findSome?_eq_none_iff.mpr, Option.map_none]
-      intro b hb
-      obtain ⟨j, hj, rfl⟩ := List.getElem_of_mem hb
-      apply Branch.matchLen_none_of_not_first _ h hpos
-      · intro hf
-        have := (wf.dispatch (h.at 0) j hj).mpr hf
-        rw [hneg] at this
-        omega
-      · exact hlitne j hj
-    · rw [hidx, if_neg (by omega)]
-      have hfind : bs.findSome? (Branch.matchLen h) = Branch.matchLen h bs[i] := by
-        apply findSome?_unique _ _ i hi
-        intro j hj hne
-        apply Branch.matchLen_none_of_not_first _ h hpos
-        · intro hf
-          have := (wf.dispatch (h.at 0) j hj).mpr hf
-          rw [hidx] at this
-          omega
-        · exact hlitne j hj
-      rw [hfind, Int.toNat_natCast]
-      have hm := wf.matcher i hi
-      cases hbi : bs[i] with
-      | lit l =>
-        rw [hbi] at hm
-        obtain ⟨hne, hl⟩ := hm
-        have hsz : (d.branchMatchers.getD i {}).literal.size = l.length := by rw [← hl]; simp
-        have hlpos : 0 < l.length := by
-          cases l with
-          | nil => exact absurd rfl hne
-          | cons _ _ => simp
-        rw [if_pos (by omega), Branch.matchLen_lit]
-        by_cases hshort : h.size < (d.branchMatchers.getD i {}).literal.size
-        · rw [if_pos hshort, if_neg (by omega)]; rfl
-        · rw [if_neg hshort, hl]
-          have := bytesAt_iff h l 0 (by omega)
-          simp only [List.drop_zero] at this
-          by_cases hb : bytesAt h 0 l = true
-          · rw [if_pos hb, if_pos ⟨by omega, this.mp hb⟩, hsz]; rfl
-          · rw [if_neg hb, if_neg (fun hc => hb (this.mpr hc.2))]; rfl
-      | clsPlus mem =>
-        rw [hbi] at hm
-        obtain ⟨h1, h2, h3, h4⟩ := hm
-        rw [if_neg (by omega), if_pos h2, BranchDispatcher.countPrefix_eq _ h h.size 0 (by omega), h3]
-        have : runLen (d.branchMatchers.getD i {}).charClass.mem h 0 = runLen mem h 0 := by
-          congr 1; funext x; exact h4 x
-        rw [this, Branch.matchLen_cls]
-        by_cases hge : 1 ≤ runLen mem h 0
-        · rw [if_pos hge, if_pos hge]; rfl
-        · rw [if_neg hge, if_neg hge]; rfl
 
 /-! ## ExtractFirstBytes -/
 
@@ -2596,8 +2450,6 @@ theorem firstBytes_filter_sound (re : Re) (fb : FirstByteSet) (hx : extractFirst
       have := extract_sound 21 re {} res FirstByteSet.ok_empty hr frag
       exact ⟨this.first h hb _ 0 _ e hm, this.complete⟩
 
-/-! ### `NewBranchDispatcher` on the fragment produces well-formed tables -/
-
 theorem getD_setIfInBounds_int (d : Array Int) (b x : Nat) (v : Int) :
     (d.setIfInBounds b v).getD x (-1) = if b = x ∧ b < d.size then v else d.getD x (-1) := by
   simp only [Array.getD_eq_getD_getElem?, Array.getElem?_setIfInBounds]
@@ -2605,55 +2457,6 @@ theorem getD_setIfInBounds_int (d : Array Int) (b x : Nat) (v : Int) :
   · subst hbx
     by_cases hb : b < d.size <;> simp [hb]
   · simp [hbx]
-
-/-- effect of the overlap-checking claim loop -/
-theorem claimBytes_spec (fb : FirstByteSet) (i : Nat) :
-    ∀ (l : List Nat) (d d' : Array Int), l.Nodup → (∀ x ∈ l, x < d.size) → claimBytes fb i l d = some d' →
-      d'.size = d.size ∧
-      (∀ x ∈ l, fb.bytes.mem x = true → d.getD x (-1) = -1) ∧
-      (∀ x, d'.getD x (-1) = if x ∈ l ∧ fb.bytes.mem x = true then (i : Int) else d.getD x (-1)) := by
-  intro l
-  induction l with
-  | nil =>
-    intro d d' _ _ hc
-    rw [claimBytes] at hc; cases hc
-    exact ⟨rfl, (fun x hx => nomatch hx), fun x => by simp⟩
-  | cons b bs ih =>
-    intro d d' hnd hlt hc
-    rw [List.nodup_cons] at hnd
-    rw [claimBytes] at hc
-    by_cases hm : fb.bytes.mem b = true
-    · rw [if_pos hm] at hc
-      by_cases hfree : d.getD b (-1) ≠ -1
-      · rw [if_pos hfree] at hc; exact nomatch hc
-      · rw [if_neg hfree] at hc
-        have hfree : d.getD b (-1) = -1 := by simpa using hfree
-        obtain ⟨h1, h2, h3⟩ := ih _ d' hnd.2 (fun x hx => by simpa using hlt x (List.mem_cons_of_mem _ hx)) hc
-        refine ⟨by simpa using h1, fun x hx hxm => ?_, fun x => ?_⟩
-        · rcases List.mem_cons.mp hx with rfl | hx
-          · exact hfree
-          · have := h2 x hx hxm
-            rw [getD_setIfInBounds_int] at this
-            have hne : ¬ b = x := fun hbx => hnd.1 (hbx ▸ hx)
-            simpa [hne] using this
-        · rw [h3 x, getD_setIfInBounds_int]
-          have hb := hlt b List.mem_cons_self
-          by_cases hbx : b = x
-          · subst hbx
-            simp [hm, hb, hnd.1]
-          · have hne : ¬ x = b := fun h => hbx h.symm
-            simp [hbx, hne]
-    · rw [if_neg hm] at hc
-      obtain ⟨h1, h2, h3⟩ := ih d d' hnd.2 (fun x hx => hlt x (List.mem_cons_of_mem _ hx)) hc
-      refine ⟨h1, fun x hx hxm => ?_, fun x => ?_⟩
-      · rcases List.mem_cons.mp hx with rfl | hx
-        · exact absurd hxm hm
-        · exact h2 x hx hxm
-      · rw [h3 x]
-        by_cases hbx : x = b
-        · subst hbx
-          simp [hm, hnd.1]
-        · simp [hbx]
 
 theorem tableOfRangesClamped_mem (rs : List (Nat × Nat)) (b : Nat) :
     (tableOfRangesClamped rs).mem b = (decide (b < 256) && rs.any fun r => decide (r.1 ≤ b) && decide (b ≤ r.2)) := by
@@ -2673,376 +2476,6 @@ theorem tableOfRangesClamped_mem (rs : List (Nat × Nat)) (b : Nat) :
         simp [*]
     · simp [h1]
   · simp [hb]
-
-section
-attribute [local irreducible] tableOfRanges
-
-/-- shape facts about a fragment branch -/
-theorem isBDBranch_cases (x : Re) (hx : isBDBranch x = true) :
-    ((x.op ≠ .capture ∧ branchCore x = x) ∨ (x.op = .capture ∧ x.sub = [branchCore x])) ∧
-    ((isLitBranch (branchCore x) = true) ∨ (isClsPlusBranch (branchCore x) = true)) := by
-  unfold isBDBranch at hx
-  simp only [Bool.and_eq_true, Bool.or_eq_true, Bool.not_eq_true', decide_eq_false_iff_not] at hx
-  refine ⟨?_, hx.2⟩
-  unfold branchCore
-  by_cases hc : x.op = .capture
-  · right
-    refine ⟨hc, ?_⟩
-    rw [if_pos hc]
-    rcases hx.1 with h1 | h1
-    · exact absurd hc h1
-    · split at h1
-      · rename_i y hy; rw [hy]
-      · exact nomatch h1
-  · left; exact ⟨hc, by rw [if_neg hc]⟩
-
-theorem isLitBranch_shape (y : Re) (hy : isLitBranch y = true) :
-    y.op = .literal ∧ y.foldCase = false ∧ ∃ r rs, y.rune = r :: rs ∧ ∀ q ∈ y.rune, q ≤ 127 := by
-  unfold isLitBranch at hy
-  simp only [Bool.and_eq_true, decide_eq_true_eq, Bool.not_eq_true', List.all_eq_true, List.isEmpty_eq_false_iff] at hy
-  obtain ⟨⟨⟨h1, h2⟩, h3⟩, h4⟩ := hy
-  refine ⟨h1, h2, ?_⟩
-  cases hr : y.rune with
-  | nil => exact absurd hr h3
-  | cons r rs => exact ⟨r, rs, rfl, by rw [← hr]; exact h4⟩
-
-theorem isClsPlusBranch_shape (y : Re) (hy : isClsPlusBranch y = true) :
-    y.op = .plus ∧ y.nonGreedy = false ∧ ∃ cc, y.sub = [cc] ∧ cc.op = .charClass ∧ ∀ p ∈ pairs cc.rune, p.2 ≤ 127 := by
-  unfold isClsPlusBranch at hy
-  simp only [Bool.and_eq_true, decide_eq_true_eq, Bool.not_eq_true'] at hy
-  obtain ⟨⟨h1, h2⟩, h3⟩ := hy
-  refine ⟨h1, h2, ?_⟩
-  split at h3
-  · rename_i cc hcc
-    simp only [Bool.and_eq_true, decide_eq_true_eq, List.all_eq_true] at h3
-    exact ⟨cc, hcc, h3.1, h3.2⟩
-  · exact nomatch h3
-
-/-- what `ExtractFirstBytes` returns for a fragment branch -/
-theorem extractFirstBytes_branch (x : Re) (hx : isBDBranch x = true) (fb : FirstByteSet)
-    (he : extractFirstBytes x = some fb) :
-    fb.complete = true ∧ fb.count > 0 ∧ ∀ j, fb.bytes.mem j = true ↔ (branchOf x).first j := by
-  obtain ⟨hcap, hkind⟩ := isBDBranch_cases x hx
-  -- reduce to the core with some fuel ≥ 2
-  have hcore : ∃ f, 2 ≤ f ∧ extractFirstBytesRec f (branchCore x) {} = (true, fb) := by
-    unfold extractFirstBytes at he
-    cases hr : extractFirstBytesRec 21 x {} with
-    | mk b res =>
-      rw [hr] at he
-      cases b with
-      | false => exact nomatch he
-      | true =>
-        simp only [Option.some.injEq] at he
-        subst he
-        rcases hcap with ⟨_, hc⟩ | ⟨hc, hs⟩
-        · exact ⟨21, by omega, by rw [hc]; exact hr⟩
-        · rw [extractFirstBytesRec, hc] at hr
-          simp only [] at hr
-          rw [hs] at hr
-          exact ⟨20, by omega, hr⟩
-  obtain ⟨f, hf, hr⟩ := hcore
-  obtain ⟨f, rfl⟩ : ∃ f', f = f' + 2 := ⟨f - 2, by omega⟩
-  unfold branchOf
-  simp only []
-  rcases hkind with hl | hc
-  · obtain ⟨hop, _, r, rs, hrune, hall⟩ := isLitBranch_shape _ hl
-    rw [extractFirstBytesRec, hop] at hr
-    simp only [] at hr
-    rw [hrune] at hr
-    simp only [] at hr
-    have hr127 : r ≤ 127 := hall r (by rw [hrune]; exact List.mem_cons_self)
-    rw [if_neg (by omega)] at hr
-    obtain ⟨_, rfl⟩ := Prod.mk.inj hr
-    rw [if_pos hop]
-    refine ⟨rfl, by simp [FirstByteSet.addAlways], fun j => ?_⟩
-    rw [FirstByteSet.addAlways_mem _ _ _ FirstByteSet.ok_empty]
-    unfold Branch.first
-    rw [hrune]
-    have hempty : Table.mem ({} : FirstByteSet).bytes j = false := by
-      unfold Table.mem; simp [Array.getD]
-    rw [hempty]
-    simp only [Bool.false_or, Bool.and_eq_true, decide_eq_true_eq, List.head?_cons, Option.some.injEq]
-    constructor
-    · rintro ⟨h1, _⟩; exact h1
-    · intro h1; exact ⟨h1, by omega⟩
-  · obtain ⟨hop, _, cc, hsub, hcc, _⟩ := isClsPlusBranch_shape _ hc
-    rw [extractFirstBytesRec, hop] at hr
-    simp only [] at hr
-    rw [hsub] at hr
-    simp only [] at hr
-    rw [extractFirstBytesRec, hcc] at hr
-    simp only [] at hr
-    obtain ⟨hcnt, rfl⟩ := Prod.mk.inj hr
-    rw [if_neg (by rw [hop]; exact fun h => nomatch h), hsub]
-    simp only []
-    refine ⟨by rw [addClassRanges_complete], by simpa using hcnt, fun j => ?_⟩
-    rw [addClassRanges_mem _ _ _ FirstByteSet.ok_empty]
-    show _ ↔ (tableOfRangesClamped (pairs cc.rune)).mem j = true
-    rw [tableOfRangesClamped_mem]
-    have hempty : Table.mem ({} : FirstByteSet).bytes j = false := by
-      unfold Table.mem; simp [Array.getD]
-    rw [hempty]
-    simp
-
-/-- what `buildBranchMatcher` returns for a fragment branch -/
-theorem buildBranchMatcher_branch (x : Re) (hx : isBDBranch x = true) :
-    match branchOf x with
-    | .lit l => l ≠ [] ∧ (buildBranchMatcher x).literal.toList = l
-    | .clsPlus mem =>
-      (buildBranchMatcher x).literal.size = 0 ∧ (buildBranchMatcher x).hasCharClass = true ∧
-      (buildBranchMatcher x).minMatch = 1 ∧ ∀ j, (buildBranchMatcher x).charClass.mem j = mem j := by
-  obtain ⟨_, hkind⟩ := isBDBranch_cases x hx
-  have hbuild : buildBranchMatcher x =
-      (match (branchCore x).op with
-       | .literal =>
-         match literalBytes (branchCore x).rune with
-         | some b => { literal := b }
-         | none =>
-           let good := (branchCore x).rune.takeWhile (· ≤ 255)
-           { literal := (good ++ List.replicate ((branchCore x).rune.length - good.length) 0).toArray }
-       | .plus =>
-         match (branchCore x).sub with
-         | [cc] => if cc.op = .charClass then
-                     { charClass := tableOfRangesClamped (pairs cc.rune), hasCharClass := true, minMatch := 1 }
-                   else {}
-         | _ => {}
-       | .star =>
-         match (branchCore x).sub with
-         | [cc] => if cc.op = .charClass then
-                     { charClass := tableOfRangesClamped (pairs cc.rune), hasCharClass := true, minMatch := 0 }
-                   else {}
-         | _ => {}
-       | .concat =>
-         match (branchCore x).sub with
-         | l :: _ => if l.op = .literal then
-                       match literalBytes l.rune with
-                       | some b => { literal := b }
-                       | none => {}
-                     else {}
-         | [] => {}
-       | _ => {}) := rfl
-  rw [hbuild]
-  unfold branchOf
-  simp only []
-  rcases hkind with hl | hc
-  · obtain ⟨hop, _, r, rs, hrune, hall⟩ := isLitBranch_shape _ hl
-    rw [if_pos hop, hop]
-    simp only []
-    have hlb : literalBytes (branchCore x).rune = some (branchCore x).rune.toArray := by
-      unfold literalBytes
-      rw [if_neg]
-      simp only [List.any_eq_true, decide_eq_true_eq, not_exists, not_and]
-      intro q hq
-      have := hall q hq
-      omega
-    rw [hlb]
-    simp only []
-    exact ⟨by rw [hrune]; exact (fun h => nomatch h), by simp⟩
-  · obtain ⟨hop, _, cc, hsub, hcc, _⟩ := isClsPlusBranch_shape _ hc
-    rw [if_neg (by rw [hop]; exact fun h => nomatch h), hop]
-    simp only []
-    rw [hsub]
-    simp only []
-    rw [if_pos hcc]
-    exact ⟨rfl, rfl, rfl, fun j => rfl⟩
-
-end
-
-theorem branchOf_first_lt (x : Re) (hx : isBDBranch x = true) (j : Nat) (hf : (branchOf x).first j) : j < 256 := by
-  obtain ⟨_, hkind⟩ := isBDBranch_cases x hx
-  unfold branchOf at hf
-  simp only [] at hf
-  rcases hkind with hl | hc
-  · obtain ⟨hop, _, r, rs, hrune, hall⟩ := isLitBranch_shape _ hl
-    rw [if_pos hop, hrune] at hf
-    have : r = j := by simpa [Branch.first] using hf
-    have := hall r (by rw [hrune]; exact List.mem_cons_self)
-    omega
-  · obtain ⟨hop, _, cc, hsub, _, _⟩ := isClsPlusBranch_shape _ hc
-    rw [if_neg (by rw [hop]; exact fun h => nomatch h)] at hf
-    have hf : (tableOfRangesClamped (match (branchCore x).sub with | [cc] => pairs cc.rune | _ => [])).mem j = true := hf
-    rw [tableOfRangesClamped_mem] at hf
-    simp only [Bool.and_eq_true, decide_eq_true_eq] at hf
-    exact hf.1
-
-/-- invariant of the `NewBranchDispatcher` loop after the branches `done` -/
-structure LoopInv (done : List Re) (st : BDState) : Prop where
-  size : st.dispatch.size = 256
-  msize : st.matchers.size = done.length
-  noEmpty : st.canMatchEmpty = false
-  matcher : ∀ i (hi : i < done.length), st.matchers.getD i {} = buildBranchMatcher done[i]
-  range : ∀ x, st.dispatch.getD x (-1) = -1 ∨ ∃ i, i < done.length ∧ st.dispatch.getD x (-1) = (i : Int)
-  dispatch : ∀ x i (hi : i < done.length), st.dispatch.getD x (-1) = (i : Int) ↔ (branchOf done[i]).first x
-
-theorem getD_push {α : Type} (a : Array α) (v d : α) (i : Nat) :
-    (a.push v).getD i d = if i < a.size then a.getD i d else if i = a.size then v else d := by
-  simp only [Array.getD_eq_getD_getElem?, Array.getElem?_push]
-  by_cases h1 : i < a.size
-  · have : ¬ i = a.size := by omega
-    simp [h1, this]
-  · by_cases h2 : i = a.size
-    · simp [h2]
-    · have : a[i]? = none := by simp; omega
-      simp [h1, h2]
-
-theorem newBranchLoop_inv :
-    ∀ (rest done : List Re) (i : Nat) (st st' : BDState), i = done.length → LoopInv done st →
-      (∀ x ∈ rest, isBDBranch x = true) → newBranchLoop rest i st = some st' → LoopInv (done ++ rest) st' := by
-  intro rest
-  induction rest with
-  | nil =>
-    intro done i st st' _ hinv _ hl
-    rw [newBranchLoop] at hl; cases hl
-    simpa using hinv
-  | cons b rest ih =>
-    intro done i st st' hi hinv hfr hl
-    rw [newBranchLoop] at hl
-    cases hfb : extractFirstBytes b with
-    | none => rw [hfb] at hl; exact nomatch hl
-    | some fb =>
-      rw [hfb] at hl
-      simp only [] at hl
-      obtain ⟨hcomp, hcnt, hmem⟩ := extractFirstBytes_branch b (hfr b List.mem_cons_self) fb hfb
-      rw [hcomp] at hl
-      simp only [Bool.not_true, Bool.false_eq_true, if_false] at hl
-      rw [if_neg (by omega)] at hl
-      cases hcl : claimBytes fb i (List.range 256) st.dispatch with
-      | none => rw [hcl] at hl; exact nomatch hl
-      | some d =>
-        rw [hcl] at hl
-        simp only [] at hl
-        obtain ⟨hsz, hfree, hd⟩ := claimBytes_spec fb i (List.range 256) st.dispatch d List.nodup_range
-          (fun x hx => by rw [hinv.size]; exact List.mem_range.mp hx) hcl
-        have hmem256 : ∀ x, fb.bytes.mem x = true → x < 256 := fun x hx =>
-          branchOf_first_lt b (hfr b List.mem_cons_self) x ((hmem x).mp hx)
-        have hnew : LoopInv (done ++ [b]) { st with dispatch := d, matchers := st.matchers.push (buildBranchMatcher b) } := by
-          refine ⟨by rw [hsz]; exact hinv.size, by simp [hinv.msize], hinv.noEmpty, ?_, ?_, ?_⟩
-          · intro idx hidx
-            simp only []
-            rw [getD_push, hinv.msize]
-            by_cases h1 : idx < done.length
-            · rw [if_pos h1, hinv.matcher idx h1, List.getElem_append_left h1]
-            · have h2 : idx = done.length := by simp at hidx; omega
-              subst h2
-              rw [if_neg h1, if_pos rfl]
-              simp
-          · intro x
-            simp only []
-            rw [hd x]
-            split
-            · right; exact ⟨done.length, by simp, by rw [hi]⟩
-            · rcases hinv.range x with h0 | ⟨j, hj, hjx⟩
-              · exact Or.inl h0
-              · right; exact ⟨j, by simp; omega, hjx⟩
-          · intro x idx hidx
-            simp only []
-            rw [hd x]
-            by_cases h1 : idx < done.length
-            · rw [List.getElem_append_left h1, ← hinv.dispatch x idx h1]
-              by_cases hx : x ∈ List.range 256 ∧ fb.bytes.mem x = true
-              · rw [if_pos hx]
-                have := hfree x hx.1 hx.2
-                rw [this]
-                constructor
-                · intro hc; have : (i : Int) = idx := hc; omega
-                · intro hc; omega
-              · rw [if_neg hx]
-            · have h2 : idx = done.length := by simp at hidx; omega
-              subst h2
-              have hb : (done ++ [b])[done.length] = b := by simp
-              rw [hb, ← hmem x]
-              by_cases hx : x ∈ List.range 256 ∧ fb.bytes.mem x = true
-              · rw [if_pos hx]
-                exact ⟨fun _ => hx.2, fun _ => by rw [hi]⟩
-              · rw [if_neg hx]
-                constructor
-                · intro hc
-                  rcases hinv.range x with h0 | ⟨j, hj, hjx⟩
-                  · rw [h0] at hc; omega
-                  · rw [hjx] at hc; omega
-                · intro hc
-                  exact absurd ⟨List.mem_range.mpr (hmem256 x hc), hc⟩ hx
-        have := ih (done ++ [b]) (i + 1) _ st' (by simp [hi]) hnew (fun x hx => hfr x (List.mem_cons_of_mem _ hx)) hl
-        simpa using this
-
-theorem getD_replicate_int (x : Nat) : (Array.replicate 256 (-1 : Int)).getD x (-1) = -1 := by
-  simp only [Array.getD_eq_getD_getElem?, Array.getElem?_replicate]
-  split <;> rfl
-
-/-- **AST-level exactness of the BranchDispatcher on the fragment**: the dispatcher meta builds has well-formed
-    tables, hence `Search` = leftmost-first semantics `altFind` of the alternation, and `IsMatch` agrees. -/
-theorem branchDispatcher_exact (re : Re) (d : BranchDispatcher) (hd : metaBranchDispatcher re = some d)
-    (frag : bdFrag re = true) :
-    d.WF ((bdBranches re).map branchOf) ∧
-    (∀ h, d.search h = altFind ((bdBranches re).map branchOf) h) ∧
-    (∀ h, d.isMatch h = (altFind ((bdBranches re).map branchOf) h).isSome) := by
-  unfold bdFrag at frag
-  simp only [Bool.and_eq_true, decide_eq_true_eq] at frag
-  obtain ⟨hop, frag⟩ := frag
-  cases hsub : re.sub with
-  | nil => rw [hsub] at frag; exact nomatch frag
-  | cons a t =>
-    cases t with
-    | nil => rw [hsub] at frag; exact nomatch frag
-    | cons alt t =>
-      cases t with
-      | cons _ _ => rw [hsub] at frag; exact nomatch frag
-      | nil =>
-        rw [hsub] at frag
-        simp only [Bool.and_eq_true, Bool.or_eq_true, decide_eq_true_eq, List.all_eq_true] at frag
-        obtain ⟨⟨⟨_, haltop⟩, hinner⟩, hbr⟩ := frag
-        have hbs : bdBranches re = (bdAlt alt).sub := by unfold bdBranches; rw [hsub]
-        -- the alternation part meta selects is `alt`
-        have hsel : metaBranchDispatcher re = newBranchDispatcher alt := by
-          unfold metaBranchDispatcher
-          simp only []
-          rw [if_pos ⟨hop, by rw [hsub]; simp⟩, hsub]
-          simp only [List.drop_succ_cons, List.drop_zero, List.find?_cons]
-          have : (decide (alt.op = .alternate) || decide (alt.op = .capture)) = true := by simpa using haltop
-          rw [this]
-        rw [hsel] at hd
-        unfold newBranchDispatcher at hd
-        simp only [] at hd
-        have hd : (if (bdAlt alt).op ≠ .alternate then none else
-            if (bdAlt alt).sub.length < 2 ∨ (bdAlt alt).sub.length > 127 then none else
-              (newBranchLoop (bdAlt alt).sub 0 {}).map fun st =>
-                ({ dispatch := st.dispatch, branchMatchers := st.matchers, canMatchEmpty := st.canMatchEmpty } :
-                  BranchDispatcher)) = some d := hd
-        rw [if_neg (by rw [hinner]; exact fun h => h rfl)] at hd
-        split at hd
-        · exact nomatch hd
-        · cases hloop : newBranchLoop (bdAlt alt).sub 0 {} with
-          | none => rw [hloop] at hd; exact nomatch hd
-          | some st =>
-            rw [hloop, Option.map_some] at hd
-            cases hd
-            have hinit : LoopInv [] ({} : BDState) :=
-              ⟨by simp, by simp, rfl, fun i hi => absurd hi (by simp), fun x => Or.inl (getD_replicate_int x),
-               fun x i hi => absurd hi (by simp)⟩
-            have hinv := newBranchLoop_inv (bdAlt alt).sub [] 0 {} st rfl hinit hbr hloop
-            simp only [List.nil_append] at hinv
-            have hwf : BranchDispatcher.WF
-                { dispatch := st.dispatch, branchMatchers := st.matchers, canMatchEmpty := st.canMatchEmpty }
-                ((bdBranches re).map branchOf) := by
-              rw [hbs]
-              refine ⟨hinv.noEmpty, ?_, ?_, ?_⟩
-              · intro i hi
-                have hi' : i < (bdAlt alt).sub.length := by simpa using hi
-                rw [List.getElem_map]
-                simp only []
-                rw [hinv.matcher i hi']
-                exact buildBranchMatcher_branch _ (hbr _ (List.getElem_mem hi'))
-              · intro x
-                rcases hinv.range x with h0 | ⟨j, hj, hjx⟩
-                · exact Or.inl h0
-                · exact Or.inr ⟨j, by simpa using hj, hjx⟩
-              · intro x i hi
-                have hi' : i < (bdAlt alt).sub.length := by simpa using hi
-                rw [List.getElem_map]
-                exact hinv.dispatch x i hi'
-            refine ⟨hwf, fun h => BranchDispatcher.search_eq_spec _ _ hwf h, fun h => ?_⟩
-            rw [BranchDispatcher.isMatch_eq, BranchDispatcher.search_eq_spec _ _ hwf h]
-
 
 /-! ## the `[cls]+` specification IS the general leftmost-first semantics (ASCII class, byte haystack) -/
 
@@ -3349,21 +2782,26 @@ def topOf (mx : Option Nat) (R : Nat) : Nat :=
   | none => R
   | some b => min b R
 
-variable (h : Bytes) (cc : Re) (hcc : cc.op = .charClass) (hascii : ∀ p ∈ pairs cc.rune, p.2 ≤ 127)
-include hcc hascii
+/-- "`x` consumes exactly one byte of the set `S`": the behaviour of the reference matcher on `x` with at least `N` fuel -/
+def StepSem (h : Bytes) (x : Re) (S : Nat → Bool) (N : Nat) : Prop :=
+  ∀ f pos (k : Nat → Option Nat), N ≤ f →
+    Ref.run h f (.one x) pos k = if pos < h.size ∧ S (h.at pos) = true then k (pos + 1) else none
 
-theorem run_star_cls (lazy : Bool) :
-    ∀ d s f (k : Nat → Option Nat), h.size - s ≤ d → 2 * d + 2 ≤ f →
-      Ref.run h f (.star cc lazy) s k =
-        candFind lazy 0 (runLen (tableOfRanges (pairs cc.rune)).mem h s) s k := by
+section
+variable (h : Bytes) (x : Re) (S : Nat → Bool) (N : Nat) (hN : 1 ≤ N) (hx : StepSem h x S N)
+include hN hx
+
+theorem run_star_step (lazy : Bool) :
+    ∀ d s f (k : Nat → Option Nat), h.size - s ≤ d → d + 1 + N ≤ f →
+      Ref.run h f (.star x lazy) s k = candFind lazy 0 (runLen S h s) s k := by
   intro d
   induction d with
   | zero =>
     intro s f k hd hf
     obtain ⟨f, rfl⟩ : ∃ f', f = f' + 2 := ⟨f - 2, by omega⟩
-    have hnm : ¬ (s < h.size ∧ (tableOfRanges (pairs cc.rune)).mem (h.at s) = true) := fun hc => by
+    have hnm : ¬ (s < h.size ∧ S (h.at s) = true) := fun hc => by
       have := hc.1; omega
-    rw [Ref.run_star, run_one_asciiClass h cc hcc hascii, if_neg hnm, runLen_ge _ h s (by omega), candFind_zero]
+    rw [Ref.run_star, hx _ _ _ (by omega), if_neg hnm, runLen_ge _ h s (by omega), candFind_zero]
     unfold Ref.orElse
     cases lazy
     · rfl
@@ -3371,16 +2809,16 @@ theorem run_star_cls (lazy : Bool) :
   | succ d ih =>
     intro s f k hd hf
     obtain ⟨f, rfl⟩ : ∃ f', f = f' + 2 := ⟨f - 2, by omega⟩
-    rw [Ref.run_star, run_one_asciiClass h cc hcc hascii]
-    by_cases hm : s < h.size ∧ (tableOfRanges (pairs cc.rune)).mem (h.at s) = true
+    rw [Ref.run_star, hx _ _ _ (by omega)]
+    by_cases hm : s < h.size ∧ S (h.at s) = true
     · have hgt : s + 1 > s := by omega
       rw [if_pos hm, if_pos hgt, ih (s + 1) (f + 1) k (by omega) (by omega)]
-      have hrl := runLen_lt (tableOfRanges (pairs cc.rune)).mem h s hm.1
+      have hrl := runLen_lt S h s hm.1
       rw [if_pos hm.2] at hrl
       rw [hrl, candFind_succ]
       rfl
     · rw [if_neg hm]
-      have hrl : runLen (tableOfRanges (pairs cc.rune)).mem h s = 0 := by
+      have hrl : runLen S h s = 0 := by
         by_cases hp : s < h.size
         · rw [runLen_lt _ h s hp, if_neg (fun hc => hm ⟨hp, hc⟩)]
         · exact runLen_ge _ h s (by omega)
@@ -3390,34 +2828,33 @@ theorem run_star_cls (lazy : Bool) :
       · rfl
       · simp only [if_true]; cases k s <;> rfl
 
-theorem run_rep_cls (lazy : Bool) :
-    ∀ d s lo mx f (k : Nat → Option Nat), h.size - s ≤ d → 2 * d + 3 ≤ f → (∀ b, mx = some b → lo ≤ b) →
-      Ref.run h f (.rep cc lo mx lazy) s k =
-        candFind lazy lo (topOf mx (runLen (tableOfRanges (pairs cc.rune)).mem h s)) s k := by
+theorem run_rep_step (lazy : Bool) :
+    ∀ d s lo mx f (k : Nat → Option Nat), h.size - s ≤ d → d + 2 + N ≤ f → (∀ b, mx = some b → lo ≤ b) →
+      Ref.run h f (.rep x lo mx lazy) s k = candFind lazy lo (topOf mx (runLen S h s)) s k := by
   intro d
   induction d with
   | zero =>
     intro s lo mx f k hd hf hwf
     obtain ⟨f, rfl⟩ : ∃ f', f = f' + 3 := ⟨f - 3, by omega⟩
-    have hrl : runLen (tableOfRanges (pairs cc.rune)).mem h s = 0 := runLen_ge _ h s (by omega)
+    have hrl : runLen S h s = 0 := runLen_ge _ h s (by omega)
     have htop : topOf mx 0 = 0 := by unfold topOf; cases mx <;> simp
-    have hnm : ¬ (s < h.size ∧ (tableOfRanges (pairs cc.rune)).mem (h.at s) = true) := fun hc => by
+    have hnm : ¬ (s < h.size ∧ S (h.at s) = true) := fun hc => by
       have := hc.1; omega
     rw [hrl, htop, candFind_zero]
     cases lo with
     | succ m =>
-      rw [Ref.run_rep_succ, run_one_asciiClass h cc hcc hascii, if_neg hnm, if_neg (by omega)]
+      rw [Ref.run_rep_succ, hx _ _ _ (by omega), if_neg hnm, if_neg (by omega)]
     | zero =>
       simp only [if_true]
       cases mx with
       | none =>
-        rw [Ref.run_rep_zero_none, run_star_cls h cc hcc hascii lazy 0 s (f + 2) k hd (by omega), hrl, candFind_zero]
+        rw [Ref.run_rep_zero_none, run_star_step h x S N hN hx lazy 0 s (f + 2) k hd (by omega), hrl, candFind_zero]
         rfl
       | some b =>
         cases b with
         | zero => rw [Ref.run_rep_zero_zero]
         | succ b =>
-          rw [Ref.run_rep_zero_succ, run_one_asciiClass h cc hcc hascii, if_neg hnm]
+          rw [Ref.run_rep_zero_succ, hx _ _ _ (by omega), if_neg hnm]
           unfold Ref.orElse
           cases lazy
           · rfl
@@ -3425,18 +2862,18 @@ theorem run_rep_cls (lazy : Bool) :
   | succ d ih =>
     intro s lo mx f k hd hf hwf
     obtain ⟨f, rfl⟩ : ∃ f', f = f' + 3 := ⟨f - 3, by omega⟩
-    by_cases hm : s < h.size ∧ (tableOfRanges (pairs cc.rune)).mem (h.at s) = true
-    · have hrl := runLen_lt (tableOfRanges (pairs cc.rune)).mem h s hm.1
+    by_cases hm : s < h.size ∧ S (h.at s) = true
+    · have hrl := runLen_lt S h s hm.1
       rw [if_pos hm.2] at hrl
       cases lo with
       | succ m =>
-        rw [Ref.run_rep_succ, run_one_asciiClass h cc hcc hascii, if_pos hm,
+        rw [Ref.run_rep_succ, hx _ _ _ (by omega), if_pos hm,
           ih (s + 1) m (mx.map (· - 1)) (f + 2) k (by omega) (by omega)
             (by intro b hb; cases mx with
                 | none => exact nomatch hb
                 | some b' => simp at hb; have := hwf b' rfl; omega)]
-        have htop : topOf mx (runLen (tableOfRanges (pairs cc.rune)).mem h s) =
-            topOf (mx.map (· - 1)) (runLen (tableOfRanges (pairs cc.rune)).mem h (s + 1)) + 1 := by
+        have htop : topOf mx (runLen S h s) =
+            topOf (mx.map (· - 1)) (runLen S h (s + 1)) + 1 := by
           rw [hrl]
           unfold topOf
           cases mx with
@@ -3452,23 +2889,23 @@ theorem run_rep_cls (lazy : Bool) :
       | zero =>
         cases mx with
         | none =>
-          rw [Ref.run_rep_zero_none, run_star_cls h cc hcc hascii lazy (d + 1) s (f + 2) k hd (by omega)]
+          rw [Ref.run_rep_zero_none, run_star_step h x S N hN hx lazy (d + 1) s (f + 2) k hd (by omega)]
           rfl
         | some b =>
           cases b with
           | zero =>
             rw [Ref.run_rep_zero_zero]
-            have : topOf (some 0) (runLen (tableOfRanges (pairs cc.rune)).mem h s) = 0 := by unfold topOf; simp
+            have : topOf (some 0) (runLen S h s) = 0 := by unfold topOf; simp
             rw [this, candFind_zero]; rfl
           | succ b =>
-            rw [Ref.run_rep_zero_succ, run_one_asciiClass h cc hcc hascii, if_pos hm,
+            rw [Ref.run_rep_zero_succ, hx _ _ _ (by omega), if_pos hm,
               ih (s + 1) 0 (some b) (f + 2) k (by omega) (by omega) (fun _ _ => Nat.zero_le _)]
-            have htop : topOf (some (b + 1)) (runLen (tableOfRanges (pairs cc.rune)).mem h s) =
-                topOf (some b) (runLen (tableOfRanges (pairs cc.rune)).mem h (s + 1)) + 1 := by
+            have htop : topOf (some (b + 1)) (runLen S h s) =
+                topOf (some b) (runLen S h (s + 1)) + 1 := by
               rw [hrl]; unfold topOf; simp only []; omega
             rw [htop, candFind_succ]
             rfl
-    · have hrl : runLen (tableOfRanges (pairs cc.rune)).mem h s = 0 := by
+    · have hrl : runLen S h s = 0 := by
         by_cases hp : s < h.size
         · rw [runLen_lt _ h s hp, if_neg (fun hc => hm ⟨hp, hc⟩)]
         · exact runLen_ge _ h s (by omega)
@@ -3476,24 +2913,71 @@ theorem run_rep_cls (lazy : Bool) :
       rw [hrl, htop, candFind_zero]
       cases lo with
       | succ m =>
-        rw [Ref.run_rep_succ, run_one_asciiClass h cc hcc hascii, if_neg hm, if_neg (by omega)]
+        rw [Ref.run_rep_succ, hx _ _ _ (by omega), if_neg hm, if_neg (by omega)]
       | zero =>
         simp only [if_true]
         cases mx with
         | none =>
-          rw [Ref.run_rep_zero_none, run_star_cls h cc hcc hascii lazy (d + 1) s (f + 2) k hd (by omega), hrl,
+          rw [Ref.run_rep_zero_none, run_star_step h x S N hN hx lazy (d + 1) s (f + 2) k hd (by omega), hrl,
             candFind_zero]
           rfl
         | some b =>
           cases b with
           | zero => rw [Ref.run_rep_zero_zero]
           | succ b =>
-            rw [Ref.run_rep_zero_succ, run_one_asciiClass h cc hcc hascii, if_neg hm]
+            rw [Ref.run_rep_zero_succ, hx _ _ _ (by omega), if_neg hm]
             unfold Ref.orElse
             cases lazy
             · rfl
             · simp only [if_true]; cases k s <;> rfl
+end
 
+/-- with an always-accepting continuation the greedy candidate search takes the greatest count -/
+theorem candFind_greedy_total (lo : Nat) : ∀ (top s : Nat) (k : Nat → Option Nat), (∀ p, k p = some p) →
+    candFind false lo top s k = if lo ≤ top then some (s + top) else none := by
+  intro top
+  induction top generalizing lo with
+  | zero =>
+    intro s k hk
+    rw [candFind_zero, hk]
+    by_cases h0 : lo = 0
+    · simp [h0]
+    · rw [if_neg h0, if_neg (by omega)]
+  | succ t ih =>
+    intro s k hk
+    rw [candFind_succ, ih (lo - 1) (s + 1) k hk]
+    simp only [Bool.false_eq_true, if_false]
+    unfold Ref.orElse
+    by_cases h1 : lo - 1 ≤ t
+    · rw [if_pos h1, if_pos (show lo ≤ t + 1 by omega)]
+      simp only []
+      congr 1; omega
+    · rw [if_neg h1, if_neg (show ¬ lo ≤ t + 1 by omega)]
+      simp only []
+      rw [if_neg (by omega)]
+
+variable (h : Bytes) (cc : Re) (hcc : cc.op = .charClass) (hascii : ∀ p ∈ pairs cc.rune, p.2 ≤ 127)
+include hcc hascii
+
+/-- an ASCII class is a one-step element -/
+theorem stepSem_asciiClass : StepSem h cc (tableOfRanges (pairs cc.rune)).mem 1 := by
+  intro f pos k hf
+  obtain ⟨f, rfl⟩ : ∃ f', f = f' + 1 := ⟨f - 1, by omega⟩
+  exact run_one_asciiClass h cc hcc hascii f pos k
+
+theorem run_star_cls (lazy : Bool) :
+    ∀ d s f (k : Nat → Option Nat), h.size - s ≤ d → 2 * d + 2 ≤ f →
+      Ref.run h f (.star cc lazy) s k =
+        candFind lazy 0 (runLen (tableOfRanges (pairs cc.rune)).mem h s) s k :=
+  fun d s f k hd hf =>
+    run_star_step h cc _ 1 (Nat.le_refl 1) (stepSem_asciiClass h cc hcc hascii) lazy d s f k hd (by omega)
+
+theorem run_rep_cls (lazy : Bool) :
+    ∀ d s lo mx f (k : Nat → Option Nat), h.size - s ≤ d → 2 * d + 3 ≤ f → (∀ b, mx = some b → lo ≤ b) →
+      Ref.run h f (.rep cc lo mx lazy) s k =
+        candFind lazy lo (topOf mx (runLen (tableOfRanges (pairs cc.rune)).mem h s)) s k :=
+  fun d s lo mx f k hd hf hwf =>
+    run_rep_step h cc _ 1 (Nat.le_refl 1) (stepSem_asciiClass h cc hcc hascii) lazy d s lo mx f k hd (by omega) hwf
 
 omit hcc hascii in
 theorem candidates_eq_candList (p : Part) (s : Nat) : p.candidates h s = candList p.lazy p.lo (p.top h s) := rfl
@@ -3742,5 +3226,1740 @@ theorem compositeSearcher_eq_reference (re : Re) (c : CompositeSearcher) (hok : 
     (fun x hx => ⟨hqc x hx, ascii x hx, repOK x hx⟩) hparts h a]
 
 end
+
+/-! ## BranchDispatcher: exact on every pattern it accepts, w.r.t. the reference matcher on the whole pattern -/
+/-- the fixed steps `ss` match `h[i .. i+|ss|)` (with the bounds check the Go code does up front) -/
+def stepsOK (h : Bytes) : List ByteSet → Nat → Bool
+  | [], _ => true
+  | s :: ss, i => decide (i < h.size) && s.has (h.at i) && stepsOK h ss (i + 1)
+
+theorem stepsOK_append (h : Bytes) (a b : List ByteSet) (i : Nat) :
+    stepsOK h (a ++ b) i = (stepsOK h a i && stepsOK h b (i + a.length)) := by
+  induction a generalizing i with
+  | nil => simp [stepsOK]
+  | cons s ss ih =>
+    simp only [List.cons_append, stepsOK, ih, List.length_cons, Bool.and_assoc]
+    rw [show i + 1 + ss.length = i + (ss.length + 1) by omega]
+
+theorem stepsOK_iff_stepsAt (h : Bytes) (ss : List ByteSet) (i : Nat) (hi : i ≤ h.size) :
+    stepsOK h ss i = true ↔ (i + ss.length ≤ h.size ∧ BranchMatcher.stepsAt h ss i = true) := by
+  induction ss generalizing i with
+  | nil => simp [stepsOK, BranchMatcher.stepsAt, hi]
+  | cons s ss ih =>
+    simp only [stepsOK, BranchMatcher.stepsAt, Bool.and_eq_true, decide_eq_true_eq, List.length_cons]
+    by_cases hlt : i < h.size
+    · rw [ih (i + 1) (by omega)]
+      cases hm : s.has (h.at i)
+      · simp
+      · simp only [Bool.not_true, Bool.false_eq_true, if_false, hlt, true_and, and_true]
+        constructor
+        · intro hc; exact ⟨by omega, hc.2⟩
+        · intro hc; exact ⟨by omega, hc.2⟩
+    · constructor
+      · intro hc; exact absurd hc.1.1 hlt
+      · intro hc; omega
+
+theorem stepsOK_replicate_succ (h : Bytes) (S : ByteSet) (n i : Nat) :
+    stepsOK h (List.replicate (n + 1) S) i =
+      (decide (i < h.size) && S.has (h.at i) && stepsOK h (List.replicate n S) (i + 1)) := rfl
+
+theorem ByteSet.has_add (s : ByteSet) (b x : Nat) : (s.add b).has x = (s.has x || decide (b = x)) := by
+  unfold ByteSet.add ByteSet.has
+  simp only []
+  rw [Nat.testBit_or, Nat.one_shiftLeft, Nat.testBit_two_pow]
+
+theorem ByteSet.has_empty (x : Nat) : ({} : ByteSet).has x = false := by
+  unfold ByteSet.has
+  exact Nat.zero_testBit x
+
+theorem byteSetSingle_has (b x : Nat) : (byteSetSingle b).has x = decide (x = b) := by
+  unfold byteSetSingle
+  rw [ByteSet.has_add, ByteSet.has_empty, Bool.false_or]
+  by_cases hx : x = b
+  · subst hx; simp
+  · have : ¬ b = x := fun hc => hx hc.symm
+    simp [hx, this]
+
+theorem stepsOK_singles (h : Bytes) (bs : List Nat) (i : Nat) :
+    stepsOK h (bs.map byteSetSingle) i = true ↔ ∀ j, j < bs.length → i + j < h.size ∧ h.at (i + j) = bs.getD j 0 := by
+  induction bs generalizing i with
+  | nil => simp [stepsOK]
+  | cons b bs ih =>
+    simp only [List.map_cons, stepsOK, Bool.and_eq_true, decide_eq_true_eq, List.length_cons]
+    rw [byteSetSingle_has, ih]
+    simp only [decide_eq_true_eq]
+    constructor
+    · rintro ⟨⟨h1, h2⟩, h3⟩ j hj
+      cases j with
+      | zero => simpa using ⟨h1, h2⟩
+      | succ j =>
+        have := h3 j (by omega)
+        simp only [List.getD_cons_succ]
+        rw [show i + (j + 1) = i + 1 + j by omega]
+        exact this
+    · intro hall
+      refine ⟨by simpa using hall 0 (by omega), fun j hj => ?_⟩
+      have := hall (j + 1) (by omega)
+      simp only [List.getD_cons_succ] at this
+      rw [show i + (j + 1) = i + 1 + j by omega] at this
+      exact this
+
+/-- the bytes of the encoding of a scalar value other than U+FFFD stand at `pos` iff the rune decoded at `pos` is that
+    value (U+FFFD is excluded: it is also what every ill-formed byte decodes to) -/
+theorem decode_encode_at (h : Bytes) (pos r : Nat) (hs : Utf8.isScalar r) (hne : r ≠ Utf8.runeError) :
+    (stepsOK h ((Utf8.encode r).map byteSetSingle) pos = true ↔
+      ((Utf8.decodeAt h pos).2 > 0 ∧ r = (Utf8.decodeAt h pos).1)) ∧
+    (stepsOK h ((Utf8.encode r).map byteSetSingle) pos = true → (Utf8.decodeAt h pos).2 = (Utf8.encode r).length) := by
+  obtain ⟨hmax, hsur⟩ := hs
+  unfold Utf8.maxRune at hmax
+  unfold Utf8.runeError at hne
+  rw [stepsOK_singles h _]
+  unfold Utf8.decodeAt
+  have hcases := Utf8.decode_cases h h.size pos
+  by_cases c1 : r < 0x80
+  · have he : Utf8.encode r = [r] := by unfold Utf8.encode; rw [if_pos c1]
+    rw [he]
+    simp only [List.length_cons, List.length_nil]
+    refine ⟨⟨fun hall => ?_, fun hd => ?_⟩, fun hall => ?_⟩
+    · have h0 := hall 0 (by omega)
+      simp only [Nat.add_zero, List.getD_cons_zero] at h0
+      rw [Utf8.decode1_fwd h h.size pos (by omega) (by omega)]
+      exact ⟨by simp, h0.2.symm⟩
+    · intro j hj
+      have : j = 0 := by omega
+      subst this
+      simp only [Nat.add_zero, List.getD_cons_zero]
+      rcases hcases with ⟨a, e⟩ | ⟨a, b, e⟩ | ⟨a, b, e⟩ | ⟨a, b, b', c, c', e⟩ | ⟨a, b, b', c, c', hE0, hED, d, d', e⟩ |
+        ⟨a, b, b', c, c', hF0, hF4, d, d', f, f', e⟩
+      all_goals rw [e] at hd
+      all_goals simp only [Utf8.runeError] at hd
+      all_goals omega
+    · have h0 := hall 0 (by omega)
+      simp only [Nat.add_zero, List.getD_cons_zero] at h0
+      rw [Utf8.decode1_fwd h h.size pos (by omega) (by omega)]
+  · by_cases c2 : r < 0x800
+    · have he : Utf8.encode r = [0xC0 + r / 64, 0x80 + r % 64] := by
+        unfold Utf8.encode; rw [if_neg c1, if_pos c2]
+      rw [he]
+      simp only [List.length_cons, List.length_nil]
+      have fwd : (∀ j, j < 2 → pos + j < h.size ∧ h.at (pos + j) = [0xC0 + r / 64, 0x80 + r % 64].getD j 0) →
+          Utf8.decodeAtEnd h h.size pos = (r, 2) := by
+        intro hall
+        have h0 := hall 0 (by omega)
+        have h1 := hall 1 (by omega)
+        simp only [Nat.add_zero, List.getD_cons_zero, List.getD_cons_succ] at h0 h1
+        rw [Utf8.decode2_fwd h h.size pos (by omega) (by omega) (by omega) (by omega) (by omega)]
+        congr 1
+        omega
+      refine ⟨⟨fun hall => ?_, fun hd => ?_⟩, fun hall => ?_⟩
+      · rw [fwd hall]; exact ⟨by simp, rfl⟩
+      · rcases hcases with ⟨a, e⟩ | ⟨a, b, e⟩ | ⟨a, b, e⟩ | ⟨a, b, b', c, c', e⟩ | ⟨a, b, b', c, c', hE0, hED, d, d', e⟩ |
+          ⟨a, b, b', c, c', hF0, hF4, d, d', f, f', e⟩
+        all_goals rw [e] at hd
+        all_goals simp only [Utf8.runeError] at hd
+        all_goals first
+          | omega
+          | (intro j hj
+             have hj' : j = 0 ∨ j = 1 := by omega
+             rcases hj' with rfl | rfl
+             · simp only [Nat.add_zero, List.getD_cons_zero]; omega
+             · simp only [List.getD_cons_succ, List.getD_cons_zero]; omega)
+      · rw [fwd hall]
+    · have c3 : ¬ ((0xD800 ≤ r ∧ r ≤ 0xDFFF) ∨ r > Utf8.maxRune) := by unfold Utf8.maxRune; omega
+      by_cases c4 : r < 0x10000
+      · have he : Utf8.encode r = [0xE0 + r / 4096, 0x80 + r / 64 % 64, 0x80 + r % 64] := by
+          unfold Utf8.encode; rw [if_neg c1, if_neg c2, if_neg c3, if_pos c4]
+        rw [he]
+        simp only [List.length_cons, List.length_nil]
+        have fwd : (∀ j, j < 3 → pos + j < h.size ∧
+              h.at (pos + j) = [0xE0 + r / 4096, 0x80 + r / 64 % 64, 0x80 + r % 64].getD j 0) →
+            Utf8.decodeAtEnd h h.size pos = (r, 3) := by
+          intro hall
+          have h0 := hall 0 (by omega)
+          have h1 := hall 1 (by omega)
+          have h2 := hall 2 (by omega)
+          simp only [Nat.add_zero, List.getD_cons_zero, List.getD_cons_succ] at h0 h1 h2
+          rw [Utf8.decode3_fwd h h.size pos (by omega) (by omega) (by omega) (by omega) (by omega) (by omega) (by omega)
+            (by omega) (by omega)]
+          congr 1
+          omega
+        refine ⟨⟨fun hall => ?_, fun hd => ?_⟩, fun hall => ?_⟩
+        · rw [fwd hall]; exact ⟨by simp, rfl⟩
+        · rcases hcases with ⟨a, e⟩ | ⟨a, b, e⟩ | ⟨a, b, e⟩ | ⟨a, b, b', c, c', e⟩ | ⟨a, b, b', c, c', hE0, hED, d, d', e⟩ |
+            ⟨a, b, b', c, c', hF0, hF4, d, d', f, f', e⟩
+          all_goals rw [e] at hd
+          all_goals simp only [Utf8.runeError] at hd
+          all_goals first
+            | omega
+            | (intro j hj
+               have hj' : j = 0 ∨ j = 1 ∨ j = 2 := by omega
+               rcases hj' with rfl | rfl | rfl
+               · simp only [Nat.add_zero, List.getD_cons_zero]; omega
+               · simp only [List.getD_cons_succ, List.getD_cons_zero]; omega
+               · simp only [List.getD_cons_succ, List.getD_cons_zero]; omega)
+        · rw [fwd hall]
+      · have he : Utf8.encode r = [0xF0 + r / 262144, 0x80 + r / 4096 % 64, 0x80 + r / 64 % 64, 0x80 + r % 64] := by
+          unfold Utf8.encode; rw [if_neg c1, if_neg c2, if_neg c3, if_neg c4]
+        rw [he]
+        simp only [List.length_cons, List.length_nil]
+        have fwd : (∀ j, j < 4 → pos + j < h.size ∧
+              h.at (pos + j) = [0xF0 + r / 262144, 0x80 + r / 4096 % 64, 0x80 + r / 64 % 64, 0x80 + r % 64].getD j 0) →
+            Utf8.decodeAtEnd h h.size pos = (r, 4) := by
+          intro hall
+          have h0 := hall 0 (by omega)
+          have h1 := hall 1 (by omega)
+          have h2 := hall 2 (by omega)
+          have h3 := hall 3 (by omega)
+          simp only [Nat.add_zero, List.getD_cons_zero, List.getD_cons_succ] at h0 h1 h2 h3
+          rw [Utf8.decode4_fwd h h.size pos (by omega) (by omega) (by omega) (by omega) (by omega) (by omega) (by omega)
+            (by omega) (by omega) (by omega) (by omega)]
+          congr 1
+          omega
+        refine ⟨⟨fun hall => ?_, fun hd => ?_⟩, fun hall => ?_⟩
+        · rw [fwd hall]; exact ⟨by simp, rfl⟩
+        · rcases hcases with ⟨a, e⟩ | ⟨a, b, e⟩ | ⟨a, b, e⟩ | ⟨a, b, b', c, c', e⟩ | ⟨a, b, b', c, c', hE0, hED, d, d', e⟩ |
+            ⟨a, b, b', c, c', hF0, hF4, d, d', f, f', e⟩
+          all_goals rw [e] at hd
+          all_goals simp only [Utf8.runeError] at hd
+          all_goals first
+            | omega
+            | (intro j hj
+               have hj' : j = 0 ∨ j = 1 ∨ j = 2 ∨ j = 3 := by omega
+               rcases hj' with rfl | rfl | rfl | rfl
+               · simp only [Nat.add_zero, List.getD_cons_zero]; omega
+               · simp only [List.getD_cons_succ, List.getD_cons_zero]; omega
+               · simp only [List.getD_cons_succ, List.getD_cons_zero]; omega
+               · simp only [List.getD_cons_succ, List.getD_cons_zero]; omega)
+        · rw [fwd hall]
+
+
+/-! ### matcher-level facts -/
+namespace BranchMatcher
+
+theorem addStep_spec (m m' : BranchMatcher) (s : ByteSet) (hm : m.addStep s = some m') :
+    m.hasTail = false ∧ m' = { m with steps := m.steps ++ [s] } := by
+  unfold addStep at hm
+  split at hm
+  · exact absurd hm (by simp)
+  · rename_i hc
+    cases hm
+    cases ht : m.hasTail
+    · exact ⟨rfl, rfl⟩
+    · exact absurd (Or.inl ht) hc
+
+theorem addBytes_spec : ∀ (bs : List Nat) (m m' : BranchMatcher), m.addBytes bs = some m' →
+    (bs ≠ [] → m.hasTail = false) ∧ m' = { m with steps := m.steps ++ bs.map byteSetSingle } := by
+  intro bs
+  induction bs with
+  | nil => intro m m' hm; rw [addBytes] at hm; cases hm; simp
+  | cons b bs ih =>
+    intro m m' hm
+    rw [addBytes] at hm
+    cases h1 : m.addStep (byteSetSingle b) with
+    | none => rw [h1] at hm; exact absurd hm (by simp)
+    | some m1 =>
+      rw [h1] at hm
+      simp only [] at hm
+      obtain ⟨ht, rfl⟩ := addStep_spec m m1 _ h1
+      obtain ⟨_, rfl⟩ := ih _ m' hm
+      exact ⟨fun _ => ht, by simp⟩
+
+theorem addStepN_spec (s : ByteSet) : ∀ (n : Nat) (m m' : BranchMatcher), m.addStepN s n = some m' →
+    (n ≠ 0 → m.hasTail = false) ∧ m' = { m with steps := m.steps ++ List.replicate n s } := by
+  intro n
+  induction n with
+  | zero => intro m m' hm; rw [addStepN] at hm; cases hm; simp
+  | succ n ih =>
+    intro m m' hm
+    rw [addStepN] at hm
+    cases h1 : m.addStep s with
+    | none => rw [h1] at hm; exact absurd hm (by simp)
+    | some m1 =>
+      rw [h1] at hm
+      simp only [] at hm
+      obtain ⟨ht, rfl⟩ := addStep_spec m m1 _ h1
+      obtain ⟨_, rfl⟩ := ih _ m' hm
+      exact ⟨fun _ => ht, by simp [List.replicate_succ]⟩
+
+end BranchMatcher
+
+/-- end of the greedy tail `t{lo,hi}` started at `p`: the longest admissible run, if it has at least `lo` bytes -/
+def tailEnd (t : ByteSet) (lo : Nat) (hi : Int) (h : Bytes) (p : Nat) : Option Nat :=
+  if lo ≤ topOf (if hi < 0 then none else some hi.toNat) (runLen t.has h p)
+  then some (p + topOf (if hi < 0 then none else some hi.toNat) (runLen t.has h p)) else none
+
+/-- the matcher started at an arbitrary offset (`match` is the case `pos = 0`) -/
+def BranchMatcher.matchFrom (m : BranchMatcher) (h : Bytes) (pos : Nat) : Option Nat :=
+  if stepsOK h m.steps pos then
+    (if m.hasTail then tailEnd m.tail m.tailMin m.tailMax h (pos + m.steps.length) else some (pos + m.steps.length))
+  else none
+
+theorem tailScan_eq (t : ByteSet) (h : Bytes) : ∀ k e, e + k ≤ h.size →
+    BranchMatcher.tailScan t h k e = e + min k (runLen t.has h e) := by
+  intro k
+  induction k with
+  | zero => intro e _; simp [BranchMatcher.tailScan]
+  | succ k ih =>
+    intro e he
+    rw [BranchMatcher.tailScan, runLen_lt t.has h e (by omega)]
+    split
+    · rw [ih (e + 1) (by omega)]; omega
+    · omega
+
+theorem BranchMatcher.match_eq (m : BranchMatcher) (h : Bytes) : m.match_ h = m.matchFrom h 0 := by
+  unfold match_ matchFrom
+  simp only []
+  by_cases hlen : h.size < m.steps.length
+  · rw [if_pos hlen, if_neg]
+    intro hc
+    have := (stepsOK_iff_stepsAt h m.steps 0 (by omega)).mp hc
+    omega
+  · rw [if_neg hlen]
+    by_cases hst : stepsAt h m.steps 0 = true
+    · have hok : stepsOK h m.steps 0 = true := (stepsOK_iff_stepsAt h m.steps 0 (by omega)).mpr ⟨by omega, hst⟩
+      rw [hok, hst]
+      simp only [Bool.not_true, Bool.false_eq_true, if_false, if_true, Nat.zero_add]
+      cases m.hasTail with
+      | false => simp
+      | true =>
+        simp only [Bool.not_true, Bool.false_eq_true, if_false, if_true]
+        have hrl := runLen_le m.tail.has h m.steps.length
+        have key : ∀ L T, m.steps.length ≤ L → L ≤ h.size →
+            min (L - m.steps.length) (runLen m.tail.has h m.steps.length) = T →
+            (if tailScan m.tail h (L - m.steps.length) m.steps.length - m.steps.length < m.tailMin then none
+             else some (tailScan m.tail h (L - m.steps.length) m.steps.length)) =
+            if m.tailMin ≤ T then some (m.steps.length + T) else none := by
+          intro L T h1 h2 h3
+          rw [tailScan_eq _ _ _ _ (by omega), h3]
+          by_cases hlo : m.tailMin ≤ T
+          · rw [if_neg (by omega), if_pos hlo]
+          · rw [if_pos (by omega), if_neg hlo]
+        unfold tailEnd topOf
+        by_cases hmax : m.tailMax < 0
+        · rw [show (if m.tailMax ≥ 0 ∧ (m.steps.length : Int) + m.tailMax < (h.size : Int)
+              then m.steps.length + m.tailMax.toNat else h.size) = h.size from if_neg (by omega)]
+          rw [if_pos hmax]
+          simp only []
+          exact key _ _ (by omega) (by omega) (by omega)
+        · rw [if_neg hmax]
+          simp only []
+          by_cases hlim : (m.steps.length : Int) + m.tailMax < (h.size : Int)
+          · rw [show (if m.tailMax ≥ 0 ∧ (m.steps.length : Int) + m.tailMax < (h.size : Int)
+                then m.steps.length + m.tailMax.toNat else h.size) = m.steps.length + m.tailMax.toNat
+                from if_pos ⟨by omega, hlim⟩]
+            exact key _ _ (by omega) (by omega) (by omega)
+          · rw [show (if m.tailMax ≥ 0 ∧ (m.steps.length : Int) + m.tailMax < (h.size : Int)
+                then m.steps.length + m.tailMax.toNat else h.size) = h.size from if_neg (fun hc => hlim hc.2)]
+            exact key _ _ (by omega) (by omega) (by omega)
+    · have hok : stepsOK h m.steps 0 = false := by
+        cases hc : stepsOK h m.steps 0 with
+        | false => rfl
+        | true => exact absurd ((stepsOK_iff_stepsAt h m.steps 0 (by omega)).mp hc).2 hst
+      rw [Bool.not_eq_true] at hst
+      rw [hok, hst]
+      simp
+
+/-! ### what `add` does to the matcher = what the reference matcher does on the sub-pattern -/
+
+/-- `t` (a sub-pattern, or the rest of a concatenation) was appended to matcher `m`, giving `m'`; `B` = fuel that suffices.
+    * after a tail nothing can be appended: the matcher is unchanged and `t` matches only the empty string;
+    * otherwise `t` appends fixed steps `ds` and possibly the tail, and the reference matcher on `t` does exactly that:
+      consume `ds`, then (if the tail was set) the longest admissible run — for the tail with a continuation that accepts
+      everywhere (the tail is the last thing in the branch). -/
+structure AddSem (h : Bytes) (B : Nat) (t : Ref.Task) (m m' : BranchMatcher) : Prop where
+  noop : m.hasTail = true → m' = m ∧ ∀ F pos (k : Nat → Option Nat), B ≤ F → Ref.run h F t pos k = k pos
+  steps : m.hasTail = false → ∃ ds, m'.steps = m.steps ++ ds ∧
+    (m'.hasTail = false → ∀ F pos (k : Nat → Option Nat), B ≤ F →
+      Ref.run h F t pos k = if stepsOK h ds pos then k (pos + ds.length) else none) ∧
+    (m'.hasTail = true → ∀ F pos (k : Nat → Option Nat), (∀ p, k p = some p) → B + (h.size + 2) ≤ F →
+      Ref.run h F t pos k =
+        if stepsOK h ds pos then tailEnd m'.tail m'.tailMin m'.tailMax h (pos + ds.length) else none)
+
+/-- nothing appended, `t` matches exactly the empty string -/
+theorem AddSem.of_noop (h : Bytes) (B : Nat) (t : Ref.Task) (m : BranchMatcher)
+    (hrun : ∀ F pos (k : Nat → Option Nat), B ≤ F → Ref.run h F t pos k = k pos) : AddSem h B t m m where
+  noop := fun _ => ⟨rfl, hrun⟩
+  steps := fun ht => ⟨[], by simp, fun _ F pos k hF => by rw [hrun F pos k hF]; simp [stepsOK],
+    fun ht' => by rw [ht] at ht'; exact absurd ht' (by simp)⟩
+
+/-- only fixed steps appended -/
+theorem AddSem.of_steps (h : Bytes) (B : Nat) (t : Ref.Task) (m : BranchMatcher) (ds : List ByteSet)
+    (ht : m.hasTail = false)
+    (hrun : ∀ F pos (k : Nat → Option Nat), B ≤ F →
+      Ref.run h F t pos k = if stepsOK h ds pos then k (pos + ds.length) else none) :
+    AddSem h B t m { m with steps := m.steps ++ ds } where
+  noop := fun ht' => by rw [ht] at ht'; exact absurd ht' (by simp)
+  steps := fun _ => ⟨ds, rfl, fun _ => hrun, fun ht' => by simp only [] at ht'; rw [ht] at ht'; exact absurd ht' (by simp)⟩
+
+/-- one more unit of fuel for a wrapper step of the reference matcher -/
+theorem AddSem.shift (h : Bytes) (B B' : Nat) (t t' : Ref.Task) (m m' : BranchMatcher) (hB : B' + 1 ≤ B)
+    (hstep : ∀ F pos (k : Nat → Option Nat), Ref.run h (F + 1) t pos k = Ref.run h F t' pos k)
+    (hs : AddSem h B' t' m m') : AddSem h B t m m' where
+  noop := fun ht => ⟨(hs.noop ht).1, fun F pos k hF => by
+    obtain ⟨F, rfl⟩ : ∃ F', F = F' + 1 := ⟨F - 1, by omega⟩
+    rw [hstep, (hs.noop ht).2 F pos k (by omega)]⟩
+  steps := fun ht => by
+    obtain ⟨ds, h1, h2, h3⟩ := hs.steps ht
+    refine ⟨ds, h1, fun ht' F pos k hF => ?_, fun ht' F pos k hk hF => ?_⟩
+    · obtain ⟨F, rfl⟩ : ∃ F', F = F' + 1 := ⟨F - 1, by omega⟩
+      rw [hstep, h2 ht' F pos k (by omega)]
+    · obtain ⟨F, rfl⟩ : ∃ F', F = F' + 1 := ⟨F - 1, by omega⟩
+      rw [hstep, h3 ht' F pos k hk (by omega)]
+
+theorem foldEq_of_not_letter (r c : Nat) (hr : Ref.isAsciiLetter r = false) : Ref.foldEq r c = decide (r = c) := by
+  unfold Ref.foldEq
+  rw [hr]
+  simp
+
+/-- the `OpLiteral` loop: every rune becomes the singleton steps of its UTF-8 encoding, and that is what the reference
+    matcher's rune-by-rune comparison accepts -/
+theorem addLiteral_sem (hasFold : Nat → Bool) (hf : FoldSound hasFold) (h : Bytes) (fold : Bool) :
+    ∀ (rs : List Nat) (m m' : BranchMatcher), m.addLiteral hasFold fold rs = some m' →
+      AddSem h (rs.length + 1) (.lit rs fold) m m' := by
+  intro rs
+  induction rs with
+  | nil =>
+    intro m m' hm
+    rw [BranchMatcher.addLiteral] at hm
+    cases hm
+    apply AddSem.of_noop
+    intro F pos k hF
+    obtain ⟨F, rfl⟩ : ∃ F', F = F' + 1 := ⟨F - 1, by omega⟩
+    rw [Ref.run]
+  | cons r rs ih =>
+    intro m m' hm
+    rw [BranchMatcher.addLiteral] at hm
+    split at hm
+    · exact absurd hm (by simp)
+    rename_i hfold
+    split at hm
+    · exact absurd hm (by simp)
+    rename_i hvalid
+    have hne : r ≠ Utf8.runeError := fun hc => hvalid (Or.inl hc)
+    have hsc : Utf8.isScalar r := by
+      false_or_by_contra
+      rename_i hc
+      exact hvalid (Or.inr hc)
+    cases h1 : m.addBytes (Utf8.encode r) with
+    | none => rw [h1] at hm; exact absurd hm (by simp)
+    | some m1 =>
+      rw [h1] at hm
+      simp only [] at hm
+      have hencne : Utf8.encode r ≠ [] := by
+        have := (Utf8.encode_length r).1
+        intro hc; rw [hc] at this; simp at this
+      obtain ⟨ht, rfl⟩ := BranchMatcher.addBytes_spec _ m m1 h1
+      have ht := ht hencne
+      have hrest := ih _ m' hm
+      -- the comparison the reference matcher performs is plain equality for this rune
+      have hcmp : ∀ c, (if fold then Ref.foldEq r c else decide (r = c)) = decide (r = c) := by
+        intro c
+        cases hfo : fold with
+        | false => rfl
+        | true =>
+          simp only [if_true]
+          apply foldEq_of_not_letter
+          cases hl : Ref.isAsciiLetter r with
+          | false => rfl
+          | true =>
+            have := hf r hl
+            rw [hfo, this] at hfold
+            exact absurd rfl hfold
+      -- one rune of the reference matcher = the steps of its encoding
+      have hrune : ∀ F pos (k : Nat → Option Nat),
+          Ref.run h (F + 1) (.lit (r :: rs) fold) pos k =
+            if stepsOK h ((Utf8.encode r).map byteSetSingle) pos
+            then Ref.run h F (.lit rs fold) (pos + (Utf8.encode r).length) k else none := by
+        intro F pos k
+        rw [Ref.run_lit_cons, hcmp]
+        obtain ⟨hiff, hw⟩ := decode_encode_at h pos r hsc hne
+        by_cases hok : stepsOK h ((Utf8.encode r).map byteSetSingle) pos = true
+        · rw [if_pos hok, hw hok]
+          have := hiff.mp hok
+          rw [if_pos]
+          simp only [Bool.and_eq_true, decide_eq_true_eq]
+          exact ⟨by have := (Utf8.encode_length r).1; omega, this.2⟩
+        · rw [if_neg hok, if_neg]
+          intro hc
+          simp only [Bool.and_eq_true, decide_eq_true_eq] at hc
+          exact hok (hiff.mpr hc)
+      have ht1 : ({ m with steps := m.steps ++ (Utf8.encode r).map byteSetSingle } : BranchMatcher).hasTail = false := ht
+      constructor
+      · intro ht'; rw [ht] at ht'; exact absurd ht' (by simp)
+      · intro _
+        obtain ⟨ds, h1, h2, h3⟩ := hrest.steps ht1
+        refine ⟨(Utf8.encode r).map byteSetSingle ++ ds, by rw [h1]; simp, fun ht' F pos k hF => ?_,
+          fun ht' F pos k hk hF => ?_⟩
+        · obtain ⟨F, rfl⟩ : ∃ F', F = F' + 1 := ⟨F - 1, by omega⟩
+          simp only [List.length_cons] at hF
+          rw [hrune, h2 ht' F _ k (by omega), stepsOK_append, List.length_map, List.length_append, List.length_map]
+          cases stepsOK h ((Utf8.encode r).map byteSetSingle) pos
+          · simp
+          · simp only [if_true, Bool.true_and, Nat.add_assoc]
+        · obtain ⟨F, rfl⟩ : ∃ F', F = F' + 1 := ⟨F - 1, by omega⟩
+          simp only [List.length_cons] at hF
+          rw [hrune, h3 ht' F _ k hk (by omega), stepsOK_append, List.length_map, List.length_append, List.length_map]
+          cases stepsOK h ((Utf8.encode r).map byteSetSingle) pos
+          · simp
+          · simp only [if_true, Bool.true_and, Nat.add_assoc]
+
+
+def sumSize (g : Nat) (xs : List Re) : Nat := (xs.map (Ref.sizeAux g)).sum
+
+theorem sumSize_cons (g : Nat) (x : Re) (xs : List Re) : sumSize g (x :: xs) = Ref.sizeAux g x + sumSize g xs := by
+  simp [sumSize]
+
+theorem sizeAux_succ (g : Nat) (re : Re) :
+    Ref.sizeAux (g + 1) re =
+      1 + sumSize g re.sub + (if re.op = .repeat_ then re.min.toNat + re.max.toNat else 0) + re.rune.length := by
+  rw [Ref.sizeAux]; rfl
+
+theorem add_succ (hasFold : Nat → Bool) (fuel : Nat) (m : BranchMatcher) (re : Re) :
+    BranchMatcher.add hasFold (fuel + 1) m re =
+    match re.op with
+    | .emptyMatch => some m
+    | .capture =>
+      match re.sub with
+      | [x] => BranchMatcher.add hasFold fuel m x
+      | _ => none
+    | .concat => BranchMatcher.addList (BranchMatcher.add hasFold fuel) re.sub m
+    | .literal => m.addLiteral hasFold re.foldCase re.rune
+    | .charClass =>
+      match asciiClassSet re with
+      | none => none
+      | some s => m.addStep s
+    | .plus | .star | .quest | .repeat_ =>
+      match re.sub with
+      | [x] =>
+        if (repBounds re).1 < 0 ∨ ((repBounds re).2 ≥ 0 ∧ (repBounds re).2 < (repBounds re).1) then none else
+        if (repBounds re).2 = 0 then some m else
+        match BranchMatcher.add hasFold fuel {} x with
+        | none => none
+        | some elem =>
+          match elem.hasTail, elem.steps with
+          | false, [s] =>
+            if (repBounds re).1 = (repBounds re).2 then m.addStepN s (repBounds re).1.toNat
+            else if re.nonGreedy ∨ m.hasTail then none
+            else some { m with hasTail := true, tail := s, tailMin := (repBounds re).1.toNat, tailMax := (repBounds re).2 }
+          | _, _ => none
+      | _ => none
+    | _ => none := by
+  rw [BranchMatcher.add]
+  cases re.op <;> rfl
+
+theorem sizeAux_pos' (g : Nat) (x : Re) : 1 ≤ Ref.sizeAux g x := by
+  cases g with
+  | zero => rw [Ref.sizeAux]; omega
+  | succ g => rw [sizeAux_succ]; omega
+
+/-! #### repetitions of a one-step element -/
+section
+variable (h : Bytes) (x : Re) (S : ByteSet) (N : Nat) (hN : 1 ≤ N) (hx : StepSem h x S.has N)
+include hN hx
+
+/-- `x{n}` = `n` copies of the step (greedy or lazy) -/
+theorem run_rep_fixed (lazy : Bool) : ∀ n F pos (k : Nat → Option Nat), n + 1 + N ≤ F →
+    Ref.run h F (.rep x n (some n) lazy) pos k =
+      if stepsOK h (List.replicate n S) pos then k (pos + n) else none := by
+  intro n
+  induction n with
+  | zero =>
+    intro F pos k hF
+    obtain ⟨F, rfl⟩ : ∃ F', F = F' + 1 := ⟨F - 1, by omega⟩
+    rw [Ref.run_rep_zero_zero]
+    simp [stepsOK]
+  | succ n ih =>
+    intro F pos k hF
+    obtain ⟨F, rfl⟩ : ∃ F', F = F' + 1 := ⟨F - 1, by omega⟩
+    rw [Ref.run_rep_succ, hx _ _ _ (by omega), stepsOK_replicate_succ]
+    simp only [Option.map_some, Nat.add_sub_cancel]
+    by_cases hm : pos < h.size ∧ S.has (h.at pos) = true
+    · rw [if_pos hm, ih F (pos + 1) k (by omega)]
+      simp only [hm.1, hm.2, decide_true, Bool.true_and, Nat.add_assoc, Nat.add_comm 1 n]
+    · rw [if_neg hm, if_neg]
+      intro hc
+      simp only [Bool.and_eq_true, decide_eq_true_eq] at hc
+      exact hm hc.1
+
+/-- greedy `x{lo,mx}` in tail position -/
+theorem run_rep_tail (lo : Nat) (mx : Option Nat) (hwf : ∀ b, mx = some b → lo ≤ b) (F pos : Nat)
+    (k : Nat → Option Nat) (hk : ∀ p, k p = some p) (hF : h.size + 2 + N ≤ F) :
+    Ref.run h F (.rep x lo mx false) pos k =
+      if lo ≤ topOf mx (runLen S.has h pos) then some (pos + topOf mx (runLen S.has h pos)) else none := by
+  rw [run_rep_step h x S.has N hN hx false h.size pos lo mx F k (by omega) (by omega) hwf,
+    candFind_greedy_total lo _ pos k hk]
+
+/-- greedy `x*` in tail position -/
+theorem run_star_tail (F pos : Nat) (k : Nat → Option Nat) (hk : ∀ p, k p = some p) (hF : h.size + 1 + N ≤ F) :
+    Ref.run h F (.star x false) pos k = some (pos + runLen S.has h pos) := by
+  rw [run_star_step h x S.has N hN hx false h.size pos F k (by omega) (by omega),
+    candFind_greedy_total 0 _ pos k hk, if_pos (Nat.zero_le _)]
+
+/-- greedy `x+` in tail position -/
+theorem run_plus_tail (F pos : Nat) (k : Nat → Option Nat) (hk : ∀ p, k p = some p) (hF : h.size + 1 + N ≤ F) :
+    (Ref.run h F (.one x) pos fun p => Ref.run h F (.star x false) p k) =
+      if 1 ≤ runLen S.has h pos then some (pos + runLen S.has h pos) else none := by
+  rw [hx _ _ _ (by omega)]
+  by_cases hm : pos < h.size ∧ S.has (h.at pos) = true
+  · rw [if_pos hm, run_star_tail h x S N hN hx F (pos + 1) k hk hF, runLen_lt S.has h pos hm.1, if_pos hm.2,
+      if_pos (by omega)]
+    congr 1; omega
+  · rw [if_neg hm, if_neg]
+    intro hc
+    apply hm
+    by_cases hp : pos < h.size
+    · rw [runLen_lt _ h pos hp] at hc
+      split at hc
+      · rename_i hmem; exact ⟨hp, hmem⟩
+      · omega
+    · rw [runLen_ge _ h pos (by omega)] at hc
+      omega
+end
+
+/-! #### the concatenation loop -/
+theorem addList_sem (h : Bytes) (g : Nat) (rec : BranchMatcher → Re → Option BranchMatcher)
+    (hrec : ∀ x m m', rec m x = some m' → depthLe g x = true → AddSem h (2 * Ref.sizeAux g x) (.one x) m m') :
+    ∀ (xs : List Re) (m m' : BranchMatcher), BranchMatcher.addList rec xs m = some m' →
+      (∀ x ∈ xs, depthLe g x = true) → AddSem h (2 * sumSize g xs + 1) (.seq xs) m m' := by
+  intro xs
+  induction xs with
+  | nil =>
+    intro m m' hm _
+    rw [BranchMatcher.addList] at hm
+    cases hm
+    apply AddSem.of_noop
+    intro F pos k hF
+    obtain ⟨F, rfl⟩ : ∃ F', F = F' + 1 := ⟨F - 1, by omega⟩
+    rw [Ref.run_seq_nil]
+  | cons x xs ih =>
+    intro m m' hm hd
+    rw [BranchMatcher.addList] at hm
+    cases h1 : rec m x with
+    | none => rw [h1] at hm; exact absurd hm (by simp)
+    | some m1 =>
+      rw [h1] at hm
+      simp only [] at hm
+      have hx := hrec x m m1 h1 (hd x (by simp))
+      have hxs := ih m1 m' hm (fun y hy => hd y (by simp [hy]))
+      have hsx := sizeAux_pos' g x
+      rw [sumSize_cons]
+      constructor
+      · intro ht
+        obtain ⟨rfl, r1⟩ := hx.noop ht
+        obtain ⟨rfl, r2⟩ := hxs.noop ht
+        refine ⟨rfl, fun F pos k hF => ?_⟩
+        obtain ⟨F, rfl⟩ : ∃ F', F = F' + 1 := ⟨F - 1, by omega⟩
+        rw [Ref.run_seq_cons, r1 F pos _ (by omega), r2 F pos k (by omega)]
+      · intro ht
+        obtain ⟨ds1, e1, a1, b1⟩ := hx.steps ht
+        cases ht1 : m1.hasTail with
+        | false =>
+          obtain ⟨ds2, e2, a2, b2⟩ := hxs.steps ht1
+          refine ⟨ds1 ++ ds2, by rw [e2, e1, List.append_assoc], fun ht' F pos k hF => ?_, fun ht' F pos k hk hF => ?_⟩
+          · obtain ⟨F, rfl⟩ : ∃ F', F = F' + 1 := ⟨F - 1, by omega⟩
+            rw [Ref.run_seq_cons, a1 ht1 F pos _ (by omega), a2 ht' F _ k (by omega), stepsOK_append,
+              List.length_append]
+            cases stepsOK h ds1 pos
+            · simp
+            · simp only [if_true, Bool.true_and, Nat.add_assoc]
+          · obtain ⟨F, rfl⟩ : ∃ F', F = F' + 1 := ⟨F - 1, by omega⟩
+            rw [Ref.run_seq_cons, a1 ht1 F pos _ (by omega), b2 ht' F _ k hk (by omega), stepsOK_append,
+              List.length_append]
+            cases stepsOK h ds1 pos
+            · simp
+            · simp only [if_true, Bool.true_and, Nat.add_assoc]
+        | true =>
+          obtain ⟨rfl, r2⟩ := hxs.noop ht1
+          refine ⟨ds1, e1, fun ht' => by rw [ht1] at ht'; exact absurd ht' (by simp), fun _ F pos k hk hF => ?_⟩
+          obtain ⟨F, rfl⟩ : ∃ F', F = F' + 1 := ⟨F - 1, by omega⟩
+          rw [Ref.run_seq_cons]
+          have hk' : ∀ p, (fun p => Ref.run h F (.seq xs) p k) p = some p := by
+            intro p
+            simp only []
+            rw [r2 F p k (by omega), hk]
+          rw [b1 ht1 F pos _ hk' (by omega)]
+
+/-- the four repetition operators over a one-step element -/
+theorem rep_sem (h : Bytes) (g : Nat) (re x : Re) (m m' : BranchMatcher) (elemO : Option BranchMatcher)
+    (hsub : re.sub = [x])
+    (hrep : re.op = .plus ∨ re.op = .star ∨ re.op = .quest ∨ re.op = .repeat_)
+    (hm : (if (repBounds re).1 < 0 ∨ ((repBounds re).2 ≥ 0 ∧ (repBounds re).2 < (repBounds re).1) then none else
+        if (repBounds re).2 = 0 then some m else
+          match elemO with
+          | none => none
+          | some elem =>
+            match elem.hasTail, elem.steps with
+            | false, [s] =>
+              if (repBounds re).1 = (repBounds re).2 then m.addStepN s (repBounds re).1.toNat
+              else if re.nonGreedy ∨ m.hasTail then none
+              else some { m with hasTail := true, tail := s, tailMin := (repBounds re).1.toNat, tailMax := (repBounds re).2 }
+            | _, _ => none) = some m')
+    (hxO : ∀ elem, elemO = some elem → AddSem h (2 * Ref.sizeAux g x) (.one x) {} elem) :
+    AddSem h (2 * Ref.sizeAux (g + 1) re) (.one re) m m' := by
+  have hsz := sizeAux_succ g re
+  rw [hsub, sumSize_cons] at hsz
+  have hsx := sizeAux_pos' g x
+  -- what the reference matcher does with the node
+  have hrun : ∀ F pos (k : Nat → Option Nat), Ref.run h (F + 1) (.one re) pos k =
+      match re.op with
+      | .plus => Ref.run h F (.one x) pos fun p => Ref.run h F (.star x re.nonGreedy) p k
+      | .star => Ref.run h F (.star x re.nonGreedy) pos k
+      | .quest => Ref.run h F (.rep x 0 (some 1) re.nonGreedy) pos k
+      | .repeat_ => Ref.run h F (.rep x re.min.toNat (if re.max < 0 then none else some re.max.toNat) re.nonGreedy) pos k
+      | _ => none := by
+    intro F pos k
+    rw [Ref.run_one]
+    rcases hrep with hop | hop | hop | hop <;> rw [hop] <;> simp only [] <;> rw [hsub]
+  split at hm
+  · exact absurd hm (by simp)
+  rename_i hbad
+  split at hm
+  · -- `x{0}` (only OpRepeat can have maxCount = 0)
+    rename_i hzero
+    cases hm
+    have hop : re.op = .repeat_ := by
+      rcases hrep with hop | hop | hop | hop
+      · simp [repBounds, hop] at hzero
+      · simp [repBounds, hop] at hzero
+      · simp [repBounds, hop] at hzero
+      · exact hop
+    have hb : repBounds re = (re.min, re.max) := by simp [repBounds, hop]
+    rw [hb] at hzero hbad
+    simp only [] at hzero hbad
+    apply AddSem.of_noop
+    intro F pos k hF
+    obtain ⟨F, rfl⟩ : ∃ F', F = F' + 2 := ⟨F - 2, by omega⟩
+    rw [hrun, hop]
+    simp only []
+    rw [hzero, show re.min.toNat = 0 by omega]
+    simp only [Int.lt_irrefl, if_false, Int.toNat_zero]
+    rw [Ref.run_rep_zero_zero]
+  rename_i hnz
+  cases helem : elemO with
+  | none => rw [helem] at hm; exact absurd hm (by simp)
+  | some elem =>
+  rw [helem] at hm
+  simp only [] at hm
+  have hx := hxO elem helem
+  split at hm
+  · -- the element is exactly one step
+    rename_i s htail hsteps
+    have hS : StepSem h x s.has (2 * Ref.sizeAux g x) := by
+      obtain ⟨ds, e1, a1, _⟩ := hx.steps rfl
+      have : ds = [s] := by
+        rw [hsteps] at e1
+        simpa using e1.symm
+      subst this
+      intro f pos k hf
+      rw [a1 htail f pos k hf]
+      simp only [stepsOK, Bool.and_true, Bool.and_eq_true, decide_eq_true_eq, List.length_cons, List.length_nil]
+    have hN : 1 ≤ 2 * Ref.sizeAux g x := by omega
+    split at hm
+    · -- fixed count
+      rename_i heq
+      have hop : re.op = .repeat_ := by
+        rcases hrep with hop | hop | hop | hop
+        · simp [repBounds, hop] at heq
+        · simp [repBounds, hop] at heq
+        · simp [repBounds, hop] at heq
+        · exact hop
+      have hb : repBounds re = (re.min, re.max) := by simp [repBounds, hop]
+      rw [hb] at heq hbad hnz hm
+      simp only [] at heq hbad hnz hm
+      obtain ⟨ht, rfl⟩ := BranchMatcher.addStepN_spec s _ m m' hm
+      have ht := ht (by omega)
+      apply AddSem.of_steps h _ _ m _ ht
+      intro F pos k hF
+      obtain ⟨F, rfl⟩ : ∃ F', F = F' + 1 := ⟨F - 1, by omega⟩
+      rw [hrun, hop]
+      simp only []
+      rw [if_neg (by omega), show re.max.toNat = re.min.toNat by omega,
+        run_rep_fixed h x s _ hN hS re.nonGreedy re.min.toNat F pos k (by rw [hop] at hsz; simp only [if_true] at hsz; omega),
+        List.length_replicate]
+    · -- variable count: the tail
+      rename_i hneq
+      split at hm
+      · exact absurd hm (by simp)
+      rename_i hng
+      cases hm
+      have hgreedy : re.nonGreedy = false := by
+        cases hc : re.nonGreedy with
+        | false => rfl
+        | true => exact absurd (Or.inl hc) hng
+      have ht : m.hasTail = false := by
+        cases hc : m.hasTail with
+        | false => rfl
+        | true => exact absurd (Or.inr hc) hng
+      constructor
+      · intro ht'; rw [ht] at ht'; exact absurd ht' (by simp)
+      · intro _
+        refine ⟨[], by simp, fun ht' => by simp at ht', fun _ F pos k hk hF => ?_⟩
+        obtain ⟨F, rfl⟩ : ∃ F', F = F' + 1 := ⟨F - 1, by omega⟩
+        simp only [stepsOK, if_true, List.length_nil, Nat.add_zero]
+        rw [hrun, hgreedy]
+        unfold tailEnd
+        rcases hrep with hop | hop | hop | hop
+        · -- x+
+          have hb : repBounds re = (1, -1) := by simp [repBounds, hop]
+          rw [hop, hb]
+          simp only []
+          rw [run_plus_tail h x s _ hN hS F pos k hk (by omega)]
+          rfl
+        · -- x*
+          have hb : repBounds re = (0, -1) := by simp [repBounds, hop]
+          rw [hop, hb]
+          simp only []
+          rw [run_star_tail h x s _ hN hS F pos k hk (by omega)]
+          simp [topOf]
+        · -- x?
+          have hb : repBounds re = (0, 1) := by simp [repBounds, hop]
+          rw [hop, hb]
+          simp only []
+          rw [run_rep_tail h x s _ hN hS 0 (some 1) (fun _ _ => Nat.zero_le _) F pos k hk (by omega)]
+          rfl
+        · -- x{n,m}
+          have hb : repBounds re = (re.min, re.max) := by simp [repBounds, hop]
+          rw [hb] at hbad
+          simp only [] at hbad
+          rw [hop, hb]
+          simp only []
+          rw [run_rep_tail h x s _ hN hS _ _ (fun b hb' => by
+            split at hb'
+            · exact absurd hb' (by simp)
+            · cases hb'; omega) F pos k hk (by omega)]
+  · exact absurd hm (by simp)
+
+theorem ByteSet.has_addRange : ∀ (k : Nat) (s : ByteSet) (r x : Nat),
+    (s.addRange k r).has x = (s.has x || (decide (r ≤ x) && decide (x < r + k))) := by
+  intro k
+  induction k with
+  | zero =>
+    intro s r x
+    rw [ByteSet.addRange]
+    have : ¬ (r ≤ x ∧ x < r + 0) := by omega
+    cases hs : s.has x <;> simp <;> omega
+  | succ k ih =>
+    intro s r x
+    rw [ByteSet.addRange, ih, ByteSet.has_add]
+    cases hs : s.has x
+    · simp only [Bool.false_or]
+      by_cases h1 : r = x
+      · subst h1; simp
+      · simp only [h1, decide_false, Bool.false_or]
+        congr 1
+        · simp; omega
+        · simp; omega
+    · simp
+
+theorem asciiClassLoop_spec : ∀ (ps : List (Nat × Nat)) (s s' : ByteSet), asciiClassLoop s ps = some s' →
+    (∀ p ∈ ps, p.2 ≤ 127) ∧
+    ∀ x, s'.has x = (s.has x || ps.any fun p => decide (p.1 ≤ x) && decide (x ≤ p.2)) := by
+  intro ps
+  induction ps with
+  | nil => intro s s' hs; rw [asciiClassLoop] at hs; cases hs; simp
+  | cons p ps ih =>
+    intro s s' hs
+    obtain ⟨lo, hi⟩ := p
+    rw [asciiClassLoop] at hs
+    split at hs
+    · exact absurd hs (by simp)
+    rename_i hok
+    obtain ⟨h1, h2⟩ := ih _ s' hs
+    refine ⟨fun p hp => ?_, fun x => ?_⟩
+    · rcases List.mem_cons.mp hp with rfl | hp
+      · simp only []; omega
+      · exact h1 p hp
+    · rw [h2, ByteSet.has_addRange, List.any_cons, Bool.or_assoc]
+      congr 2
+      by_cases hx : x < lo + (hi + 1 - lo)
+      · have : x ≤ hi := by omega
+        simp [hx, this]
+      · have : ¬ x ≤ hi := by omega
+        simp [hx, this]
+
+section
+attribute [local irreducible] tableOfRanges
+
+theorem asciiClassSet_some (re : Re) (s : ByteSet) (hs : asciiClassSet re = some s) :
+    (∀ p ∈ pairs re.rune, p.2 ≤ 127) ∧ ∀ x, (tableOfRanges (pairs re.rune)).mem x = s.has x := by
+  unfold asciiClassSet at hs
+  split at hs
+  · exact absurd hs (by simp)
+  obtain ⟨h1, h2⟩ := asciiClassLoop_spec _ _ s hs
+  refine ⟨h1, fun x => ?_⟩
+  rw [h2, ByteSet.has_empty, Bool.false_or, tableOfRanges_mem]
+  by_cases hx : x < 256
+  · simp [hx]
+  · simp only [hx, decide_false, Bool.false_and]
+    symm
+    rw [List.any_eq_false]
+    intro p hp
+    have := h1 p hp
+    simp; omega
+
+/-- **`add` is exact**: whatever `add` appends to the matcher for the sub-pattern `x` is what the reference matcher does
+    on `x` (`g` = any depth bound of `x`, it only enters the fuel estimate). -/
+theorem add_sem (hasFold : Nat → Bool) (hf : FoldSound hasFold) (h : Bytes) :
+    ∀ (fuel g : Nat) (x : Re) (m m' : BranchMatcher), BranchMatcher.add hasFold fuel m x = some m' →
+      depthLe g x = true → AddSem h (2 * Ref.sizeAux g x) (.one x) m m' := by
+  intro fuel
+  induction fuel with
+  | zero => intro g x m m' hm; rw [BranchMatcher.add] at hm; exact absurd hm (by simp)
+  | succ fuel ih =>
+    intro g re m m' hm hd
+    cases g with
+    | zero => rw [depthLe] at hd; exact absurd hd (by simp)
+    | succ g =>
+    rw [depthLe] at hd
+    rw [List.all_eq_true] at hd
+    rw [add_succ] at hm
+    have hsz := sizeAux_succ g re
+    cases hop : re.op <;> rw [hop] at hm <;> simp only [] at hm <;> try (cases hm; done)
+    · -- emptyMatch
+      cases hm
+      apply AddSem.of_noop
+      intro F pos k hF
+      obtain ⟨F, rfl⟩ : ∃ F', F = F' + 1 := ⟨F - 1, by omega⟩
+      rw [Ref.run_one, hop]
+    · -- literal
+      have := addLiteral_sem hasFold hf h re.foldCase re.rune m m' hm
+      refine AddSem.shift h _ _ _ _ m m' (by omega) (fun F pos k => ?_) this
+      rw [Ref.run_one, hop]
+    · -- charClass
+      cases hcs : asciiClassSet re with
+      | none => rw [hcs] at hm; exact absurd hm (by simp)
+      | some s =>
+        rw [hcs] at hm
+        simp only [] at hm
+        obtain ⟨hascii, hmem⟩ := asciiClassSet_some re s hcs
+        obtain ⟨ht, rfl⟩ := BranchMatcher.addStep_spec m m' _ hm
+        apply AddSem.of_steps h _ _ m _ ht
+        intro F pos k hF
+        obtain ⟨F, rfl⟩ : ∃ F', F = F' + 1 := ⟨F - 1, by omega⟩
+        rw [run_one_asciiClass h re hop hascii, hmem]
+        simp only [stepsOK, Bool.and_true, Bool.and_eq_true, decide_eq_true_eq, List.length_cons, List.length_nil]
+    · -- capture
+      match hsub : re.sub with
+      | [x] =>
+        rw [hsub] at hm
+        simp only [] at hm
+        have hl : BranchMatcher.addList (BranchMatcher.add hasFold fuel) [x] m = some m' := by
+          rw [BranchMatcher.addList, hm]; rfl
+        have := addList_sem h g _ (fun y m m' e d => ih g y m m' e d) [x] m m' hl
+          (fun y hy => hd y (by rw [hsub]; exact hy))
+        rw [hsub] at hsz
+        refine AddSem.shift h _ _ _ _ m m' (by omega) (fun F pos k => ?_) this
+        rw [Ref.run_one, hop, hsub]
+      | [] => rw [hsub] at hm; exact absurd hm (by simp)
+      | _ :: _ :: _ => rw [hsub] at hm; exact absurd hm (by simp)
+    · -- star
+      match hsub : re.sub with
+      | [x] =>
+        rw [hsub] at hm
+        simp only [] at hm
+        exact rep_sem h g re x m m' _ hsub (by simp [hop]) hm
+          (fun elem he => ih g x {} elem he (hd x (by simp [hsub])))
+      | [] => rw [hsub] at hm; exact absurd hm (by simp)
+      | _ :: _ :: _ => rw [hsub] at hm; exact absurd hm (by simp)
+    · -- plus
+      match hsub : re.sub with
+      | [x] =>
+        rw [hsub] at hm
+        simp only [] at hm
+        exact rep_sem h g re x m m' _ hsub (by simp [hop]) hm
+          (fun elem he => ih g x {} elem he (hd x (by simp [hsub])))
+      | [] => rw [hsub] at hm; exact absurd hm (by simp)
+      | _ :: _ :: _ => rw [hsub] at hm; exact absurd hm (by simp)
+    · -- quest
+      match hsub : re.sub with
+      | [x] =>
+        rw [hsub] at hm
+        simp only [] at hm
+        exact rep_sem h g re x m m' _ hsub (by simp [hop]) hm
+          (fun elem he => ih g x {} elem he (hd x (by simp [hsub])))
+      | [] => rw [hsub] at hm; exact absurd hm (by simp)
+      | _ :: _ :: _ => rw [hsub] at hm; exact absurd hm (by simp)
+    · -- repeat
+      match hsub : re.sub with
+      | [x] =>
+        rw [hsub] at hm
+        simp only [] at hm
+        exact rep_sem h g re x m m' _ hsub (by simp [hop]) hm
+          (fun elem he => ih g x {} elem he (hd x (by simp [hsub])))
+      | [] => rw [hsub] at hm; exact absurd hm (by simp)
+      | _ :: _ :: _ => rw [hsub] at hm; exact absurd hm (by simp)
+    · -- concat
+      have := addList_sem h g _ (fun y m m' e d => ih g y m m' e d) re.sub m m' hm hd
+      refine AddSem.shift h _ _ _ _ m m' (by omega) (fun F pos k => ?_) this
+      rw [Ref.run_one, hop]
+end
+
+
+/-! ### no byte set of a matcher has a member `≥ 256` (the dispatch table has 256 entries) -/
+
+def ByteSet.Bounded (s : ByteSet) : Prop := ∀ x, s.has x = true → x < 256
+
+theorem ByteSet.bounded_empty : ({} : ByteSet).Bounded := fun x hx => by
+  rw [ByteSet.has_empty] at hx; exact absurd hx (by simp)
+
+theorem byteSetSingle_bounded (b : Nat) (hb : b < 256) : (byteSetSingle b).Bounded := fun x hx => by
+  rw [byteSetSingle_has] at hx
+  simp only [decide_eq_true_eq] at hx
+  omega
+
+def BranchMatcher.TablesOK (m : BranchMatcher) : Prop := (∀ t ∈ m.steps, t.Bounded) ∧ m.tail.Bounded
+
+theorem tablesOK_empty : ({} : BranchMatcher).TablesOK := ⟨(fun _ ht => nomatch ht), ByteSet.bounded_empty⟩
+
+theorem tablesOK_steps (m : BranchMatcher) (ds : List ByteSet) (hm : m.TablesOK) (hds : ∀ t ∈ ds, t.Bounded) :
+    ({ m with steps := m.steps ++ ds } : BranchMatcher).TablesOK :=
+  ⟨fun t ht => by
+    simp only [List.mem_append] at ht
+    rcases ht with ht | ht
+    · exact hm.1 t ht
+    · exact hds t ht, hm.2⟩
+
+theorem addLiteral_tables (hasFold : Nat → Bool) (fold : Bool) : ∀ (rs : List Nat) (m m' : BranchMatcher),
+    m.addLiteral hasFold fold rs = some m' → m.TablesOK → m'.TablesOK := by
+  intro rs
+  induction rs with
+  | nil => intro m m' hm; rw [BranchMatcher.addLiteral] at hm; cases hm; exact id
+  | cons r rs ih =>
+    intro m m' hm hok
+    rw [BranchMatcher.addLiteral] at hm
+    split at hm
+    · exact absurd hm (by simp)
+    split at hm
+    · exact absurd hm (by simp)
+    rename_i hvalid
+    have hsc : Utf8.isScalar r := by
+      false_or_by_contra
+      rename_i hc
+      exact hvalid (Or.inr hc)
+    cases h1 : m.addBytes (Utf8.encode r) with
+    | none => rw [h1] at hm; exact absurd hm (by simp)
+    | some m1 =>
+      rw [h1] at hm
+      simp only [] at hm
+      obtain ⟨_, rfl⟩ := BranchMatcher.addBytes_spec _ m m1 h1
+      apply ih _ m' hm
+      apply tablesOK_steps m _ hok
+      intro t ht
+      simp only [List.mem_map] at ht
+      obtain ⟨b, hb, rfl⟩ := ht
+      exact byteSetSingle_bounded b (Utf8.encode_bytes_lt r hsc.1 b hb)
+
+theorem addList_tables (rec : BranchMatcher → Re → Option BranchMatcher)
+    (hrec : ∀ x m m', rec m x = some m' → m.TablesOK → m'.TablesOK) :
+    ∀ (xs : List Re) (m m' : BranchMatcher), BranchMatcher.addList rec xs m = some m' → m.TablesOK → m'.TablesOK := by
+  intro xs
+  induction xs with
+  | nil => intro m m' hm; rw [BranchMatcher.addList] at hm; cases hm; exact id
+  | cons x xs ih =>
+    intro m m' hm hok
+    rw [BranchMatcher.addList] at hm
+    cases h1 : rec m x with
+    | none => rw [h1] at hm; exact absurd hm (by simp)
+    | some m1 =>
+      rw [h1] at hm
+      exact ih m1 m' hm (hrec x m m1 h1 hok)
+
+theorem add_tables (hasFold : Nat → Bool) : ∀ (fuel : Nat) (x : Re) (m m' : BranchMatcher),
+    BranchMatcher.add hasFold fuel m x = some m' → m.TablesOK → m'.TablesOK := by
+  intro fuel
+  induction fuel with
+  | zero => intro x m m' hm; rw [BranchMatcher.add] at hm; exact absurd hm (by simp)
+  | succ fuel ih =>
+    intro re m m' hm hok
+    rw [add_succ] at hm
+    have hrepcase : ∀ (x : Re),
+        (if (repBounds re).1 < 0 ∨ ((repBounds re).2 ≥ 0 ∧ (repBounds re).2 < (repBounds re).1) then none else
+          if (repBounds re).2 = 0 then some m else
+          match BranchMatcher.add hasFold fuel {} x with
+          | none => none
+          | some elem =>
+            match elem.hasTail, elem.steps with
+            | false, [s] =>
+              if (repBounds re).1 = (repBounds re).2 then m.addStepN s (repBounds re).1.toNat
+              else if re.nonGreedy ∨ m.hasTail then none
+              else some { m with hasTail := true, tail := s, tailMin := (repBounds re).1.toNat, tailMax := (repBounds re).2 }
+            | _, _ => none) = some m' → m'.TablesOK := by
+      intro x hm
+      split at hm
+      · exact absurd hm (by simp)
+      split at hm
+      · cases hm; exact hok
+      cases he : BranchMatcher.add hasFold fuel {} x with
+      | none => rw [he] at hm; exact absurd hm (by simp)
+      | some elem =>
+        rw [he] at hm
+        simp only [] at hm
+        have helem := ih x {} elem he tablesOK_empty
+        split at hm
+        · rename_i s _ hsteps
+          have hs : s.Bounded := helem.1 s (by rw [hsteps]; simp)
+          split at hm
+          · obtain ⟨_, rfl⟩ := BranchMatcher.addStepN_spec s _ m m' hm
+            apply tablesOK_steps m _ hok
+            intro t ht
+            rw [List.eq_of_mem_replicate ht]; exact hs
+          · split at hm
+            · exact absurd hm (by simp)
+            · cases hm; exact ⟨hok.1, hs⟩
+        · exact absurd hm (by simp)
+    cases hop : re.op <;> rw [hop] at hm <;> simp only [] at hm <;> try (cases hm; done)
+    · cases hm; exact hok
+    · exact addLiteral_tables hasFold _ _ m m' hm hok
+    · cases hcs : asciiClassSet re with
+      | none => rw [hcs] at hm; exact absurd hm (by simp)
+      | some s =>
+        rw [hcs] at hm
+        simp only [] at hm
+        obtain ⟨_, hmem⟩ := asciiClassSet_some re s hcs
+        obtain ⟨_, rfl⟩ := BranchMatcher.addStep_spec m m' _ hm
+        apply tablesOK_steps m _ hok
+        intro t ht
+        simp only [List.mem_singleton] at ht
+        subst ht
+        intro x hx
+        rw [← hmem, tableOfRanges_mem] at hx
+        simp only [Bool.and_eq_true, decide_eq_true_eq] at hx
+        exact hx.1
+    · match hsub : re.sub with
+      | [x] => rw [hsub] at hm; exact ih x m m' hm hok
+      | [] => rw [hsub] at hm; exact absurd hm (by simp)
+      | _ :: _ :: _ => rw [hsub] at hm; exact absurd hm (by simp)
+    · match hsub : re.sub with
+      | [x] => rw [hsub] at hm; exact hrepcase x hm
+      | [] => rw [hsub] at hm; exact absurd hm (by simp)
+      | _ :: _ :: _ => rw [hsub] at hm; exact absurd hm (by simp)
+    · match hsub : re.sub with
+      | [x] => rw [hsub] at hm; exact hrepcase x hm
+      | [] => rw [hsub] at hm; exact absurd hm (by simp)
+      | _ :: _ :: _ => rw [hsub] at hm; exact absurd hm (by simp)
+    · match hsub : re.sub with
+      | [x] => rw [hsub] at hm; exact hrepcase x hm
+      | [] => rw [hsub] at hm; exact absurd hm (by simp)
+      | _ :: _ :: _ => rw [hsub] at hm; exact absurd hm (by simp)
+    · match hsub : re.sub with
+      | [x] => rw [hsub] at hm; exact hrepcase x hm
+      | [] => rw [hsub] at hm; exact absurd hm (by simp)
+      | _ :: _ :: _ => rw [hsub] at hm; exact absurd hm (by simp)
+    · exact addList_tables _ (fun x m m' e => ih x m m' e) re.sub m m' hm hok
+
+
+/-! ### one branch -/
+
+/-- what `buildBranchMatcher` guarantees about an accepted branch `b` with matcher `m` -/
+structure BranchOK (hasFold : Nat → Bool) (b : Re) (m : BranchMatcher) : Prop where
+  build : buildBranchMatcher hasFold b = some m
+
+theorem buildBranchMatcher_spec (hasFold : Nat → Bool) (b : Re) (m : BranchMatcher)
+    (hb : buildBranchMatcher hasFold b = some m) :
+    BranchMatcher.add hasFold 21 {} b = some m ∧ m.minLen ≠ 0 := by
+  unfold buildBranchMatcher at hb
+  cases ha : BranchMatcher.add hasFold 21 {} b with
+  | none => rw [ha] at hb; exact absurd hb (by simp)
+  | some m1 =>
+    rw [ha] at hb
+    simp only [] at hb
+    split at hb
+    · exact absurd hb (by simp)
+    · cases hb; exact ⟨rfl, by assumption⟩
+
+/-- the reference matcher on an accepted branch (in last position: accepting continuation) = the branch matcher -/
+theorem branch_sem (hasFold : Nat → Bool) (hf : FoldSound hasFold) (h : Bytes) (g : Nat) (b : Re) (m : BranchMatcher)
+    (hb : buildBranchMatcher hasFold b = some m) (hd : depthLe g b = true)
+    (F pos : Nat) (k : Nat → Option Nat) (hk : ∀ p, k p = some p) (hF : 2 * Ref.sizeAux g b + (h.size + 2) ≤ F) :
+    Ref.run h F (.one b) pos k = m.matchFrom h pos := by
+  obtain ⟨hadd, _⟩ := buildBranchMatcher_spec hasFold b m hb
+  have hs := add_sem hasFold hf h 21 g b {} m hadd hd
+  obtain ⟨ds, e1, a1, b1⟩ := hs.steps rfl
+  have e1 : m.steps = ds := by simpa using e1
+  unfold BranchMatcher.matchFrom
+  cases ht : m.hasTail with
+  | false =>
+    rw [a1 ht F pos k (by omega), e1]
+    simp only [Bool.false_eq_true, if_false, hk]
+  | true =>
+    rw [b1 ht F pos k hk hF, e1]
+    simp only [if_true]
+
+/-- a match of an accepted branch at offset 0 is non-empty and starts with a byte of the branch's first set -/
+theorem matchFrom_first (m : BranchMatcher) (hmin : m.minLen ≠ 0) (h : Bytes) (e : Nat)
+    (hm : m.matchFrom h 0 = some e) : 0 < h.size ∧ m.firstSet.has (h.at 0) = true := by
+  unfold BranchMatcher.matchFrom at hm
+  split at hm
+  case isFalse => exact absurd hm (by simp)
+  rename_i hok
+  unfold BranchMatcher.firstSet
+  cases hst : m.steps with
+  | cons s ss =>
+    rw [hst] at hok
+    simp only [stepsOK, Bool.and_eq_true, decide_eq_true_eq] at hok
+    exact ⟨hok.1.1, hok.1.2⟩
+  | nil =>
+    simp only []
+    unfold BranchMatcher.minLen at hmin
+    rw [hst] at hm hmin
+    cases ht : m.hasTail with
+    | false => rw [ht] at hmin; simp at hmin
+    | true =>
+      rw [ht] at hm hmin
+      simp only [if_true, List.length_nil, Nat.add_zero, Nat.zero_add] at hm hmin
+      unfold tailEnd at hm
+      generalize hT : topOf (if m.tailMax < 0 then none else some m.tailMax.toNat) (runLen m.tail.has h 0) = T at hm
+      have hTle : T ≤ runLen m.tail.has h 0 := by
+        rw [← hT]; unfold topOf; split <;> omega
+      have hrl : 1 ≤ runLen m.tail.has h 0 := by
+        by_cases hle : m.tailMin ≤ T
+        · omega
+        · rw [if_neg hle] at hm; exact absurd hm (by simp)
+      by_cases hp : 0 < h.size
+      · rw [runLen_lt _ h 0 hp] at hrl
+        split at hrl
+        · rename_i hmem; exact ⟨hp, hmem⟩
+        · omega
+      · rw [runLen_ge _ h 0 (by omega)] at hrl
+        omega
+
+theorem firstSet_bounded (m : BranchMatcher) (hok : m.TablesOK) : m.firstSet.Bounded := by
+  unfold BranchMatcher.firstSet
+  cases hst : m.steps with
+  | cons s ss => exact hok.1 s (by rw [hst]; simp)
+  | nil => exact hok.2
+
+theorem buildBranchMatcher_tables (hasFold : Nat → Bool) (b : Re) (m : BranchMatcher)
+    (hb : buildBranchMatcher hasFold b = some m) : m.TablesOK :=
+  add_tables hasFold 21 b {} m (buildBranchMatcher_spec hasFold b m hb).1 tablesOK_empty
+
+/-! ### the dispatch table -/
+
+theorem ByteSet.intersects_false (s o : ByteSet) (hi : s.intersects o = false) (x : Nat)
+    (hs : s.has x = true) : o.has x = false := by
+  unfold ByteSet.intersects at hi
+  simp only [decide_eq_false_iff_not, Decidable.not_not] at hi
+  unfold ByteSet.has at hs ⊢
+  have := congrArg (fun n => Nat.testBit n x) hi
+  simp only [Nat.testBit_and, Nat.zero_testBit, hs, Bool.true_and] at this
+  exact this
+
+/-- effect of the claim loop -/
+theorem claimBytes_spec (first : ByteSet) (i : Nat) :
+    ∀ (l : List Nat) (seen : ByteSet) (d : Array Int), l.Nodup → (∀ x ∈ l, x < 256) → d.size = 256 →
+      (claimBytes first i l seen d).2.size = 256 ∧
+      (∀ x, (claimBytes first i l seen d).1.has x = (seen.has x || (decide (x ∈ l) && first.has x))) ∧
+      (∀ x, (claimBytes first i l seen d).2.getD x (-1) =
+        if x ∈ l ∧ first.has x = true then (i : Int) else d.getD x (-1)) := by
+  intro l
+  induction l with
+  | nil => intro seen d _ _ hd; simp [claimBytes, hd]
+  | cons b bs ih =>
+    intro seen d hnd hlt hd
+    rw [List.nodup_cons] at hnd
+    rw [claimBytes]
+    by_cases hm : first.has b = true
+    · rw [if_pos hm]
+      obtain ⟨r2, r3, r4⟩ := ih (seen.add b) (d.setIfInBounds b (i : Int)) hnd.2
+        (fun x hx => hlt x (by simp [hx])) (by simpa using hd)
+      refine ⟨r2, fun x => ?_, fun x => ?_⟩
+      · rw [r3, ByteSet.has_add]
+        by_cases hbx : b = x
+        · subst hbx
+          simp [hm]
+        · have : ¬ (x = b) := fun hc => hbx hc.symm
+          simp [hbx, this]
+      · rw [r4, getD_setIfInBounds_int]
+        by_cases hbx : b = x
+        · subst hbx
+          have : b < d.size := by rw [hd]; exact hlt b (by simp)
+          simp [this, hm, hnd.1]
+        · have : ¬ (x = b) := fun hc => hbx hc.symm
+          simp [hbx, this]
+    · rw [if_neg hm]
+      obtain ⟨r2, r3, r4⟩ := ih seen d hnd.2 (fun x hx => hlt x (by simp [hx])) hd
+      refine ⟨r2, fun x => ?_, fun x => ?_⟩
+      · rw [r3]
+        by_cases hbx : x = b
+        · subst hbx
+          rw [Bool.not_eq_true] at hm
+          simp [hm]
+        · simp [hbx]
+      · rw [r4]
+        by_cases hbx : x = b
+        · subst hbx
+          simp [hm]
+        · simp [hbx]
+
+/-- `ms` are the matchers `buildBranchMatcher` produced for the branches `bs`, in order -/
+def BranchesBuilt (hasFold : Nat → Bool) : List Re → List BranchMatcher → Prop
+  | [], [] => True
+  | b :: bs, m :: ms => buildBranchMatcher hasFold b = some m ∧ BranchesBuilt hasFold bs ms
+  | _, _ => False
+
+/-- invariant of the `NewBranchDispatcher` loop after the branches with matchers `ms` -/
+structure LoopInv (ms : List BranchMatcher) (st : BDState) : Prop where
+  matchers : st.matchers = ms
+  dsize : st.dispatch.size = 256
+  seen_iff : ∀ x, st.seen.has x = true ↔ ∃ (i : Nat) (m : BranchMatcher), ms[i]? = some m ∧ m.firstSet.has x = true
+  disp_first : ∀ (i : Nat) (m : BranchMatcher) x, ms[i]? = some m → m.firstSet.has x = true →
+    st.dispatch.getD x (-1) = (i : Int)
+  disp_range : ∀ x, st.dispatch.getD x (-1) = -1 ∨
+    ∃ (i : Nat) (m : BranchMatcher), ms[i]? = some m ∧ st.dispatch.getD x (-1) = (i : Int) ∧ m.firstSet.has x = true
+
+theorem getD_replicate_int (x : Nat) : (Array.replicate 256 (-1 : Int)).getD x (-1) = -1 := by
+  simp only [Array.getD_eq_getD_getElem?, Array.getElem?_replicate]
+  split <;> rfl
+
+theorem loopInv_init : LoopInv [] {} where
+  matchers := rfl
+  dsize := by simp
+  seen_iff := fun x => by
+    constructor
+    · intro hx
+      have : ({} : BDState).seen.has x = false := ByteSet.has_empty x
+      rw [this] at hx; exact absurd hx (by simp)
+    · rintro ⟨i, m, hi, _⟩; simp at hi
+  disp_first := fun i m x hi _ => by simp at hi
+  disp_range := fun x => Or.inl (getD_replicate_int x)
+
+theorem newBranchLoop_inv (hasFold : Nat → Bool) :
+    ∀ (bs : List Re) (ms : List BranchMatcher) (st st' : BDState), LoopInv ms st →
+      newBranchLoop hasFold bs ms.length st = some st' →
+      ∃ ms', LoopInv (ms ++ ms') st' ∧ BranchesBuilt hasFold bs ms' := by
+  intro bs
+  induction bs with
+  | nil =>
+    intro ms st st' inv hl
+    rw [newBranchLoop] at hl
+    cases hl
+    exact ⟨[], by simpa using inv, trivial⟩
+  | cons b bs ih =>
+    intro ms st st' inv hl
+    rw [newBranchLoop] at hl
+    cases hb : buildBranchMatcher hasFold b with
+    | none => rw [hb] at hl; exact absurd hl (by simp)
+    | some m =>
+      rw [hb] at hl
+      simp only [] at hl
+      split at hl
+      · exact absurd hl (by simp)
+      rename_i hint
+      rw [Bool.not_eq_true] at hint
+      have hlt : ∀ x, m.firstSet.has x = true → x < 256 :=
+        firstSet_bounded m (buildBranchMatcher_tables hasFold b m hb)
+      obtain ⟨r2, r3, r4⟩ := claimBytes_spec m.firstSet ms.length (List.range 256) st.seen st.dispatch
+        List.nodup_range (fun x hx => List.mem_range.mp hx) inv.dsize
+      have hdisj : ∀ x, m.firstSet.has x = true → st.seen.has x = false :=
+        fun x hx => ByteSet.intersects_false _ _ hint x hx
+      have hinv : LoopInv (ms ++ [m])
+          { dispatch := (claimBytes m.firstSet ms.length (List.range 256) st.seen st.dispatch).2,
+            matchers := st.matchers ++ [m],
+            seen := (claimBytes m.firstSet ms.length (List.range 256) st.seen st.dispatch).1 } := by
+        have hget : ∀ i m', (ms ++ [m])[i]? = some m' ↔ (ms[i]? = some m' ∨ (i = ms.length ∧ m' = m)) := by
+          intro i m'
+          rw [List.getElem?_append]
+          split
+          · rename_i hi
+            constructor
+            · exact Or.inl
+            · rintro (h1 | ⟨h1, _⟩)
+              · exact h1
+              · omega
+          · rename_i hi
+            have hnone : ms[i]? = none := List.getElem?_eq_none (by omega)
+            constructor
+            · intro h1
+              right
+              by_cases hi' : i = ms.length
+              · subst hi'
+                simp at h1
+                exact ⟨rfl, h1.symm⟩
+              · rw [List.getElem?_eq_none (by simp; omega)] at h1
+                exact absurd h1 (by simp)
+            · rintro (h1 | ⟨h1, h2⟩)
+              · rw [hnone] at h1; exact absurd h1 (by simp)
+              · subst h1 h2; simp
+        have hclaim : ∀ x, (x ∈ List.range 256 ∧ m.firstSet.has x = true) ↔ m.firstSet.has x = true :=
+          fun x => ⟨fun hc => hc.2, fun hc => ⟨List.mem_range.mpr (hlt x hc), hc⟩⟩
+        refine ⟨by rw [inv.matchers], r2, fun x => ?_, fun i m' x hi hx => ?_, fun x => ?_⟩
+        · simp only []
+          rw [r3 x]
+          simp only [Bool.or_eq_true, Bool.and_eq_true, decide_eq_true_eq, hclaim, inv.seen_iff]
+          constructor
+          · rintro (⟨i, m', hi, hx⟩ | hx)
+            · exact ⟨i, m', (hget i m').mpr (Or.inl hi), hx⟩
+            · exact ⟨ms.length, m, (hget _ _).mpr (Or.inr ⟨rfl, rfl⟩), hx⟩
+          · rintro ⟨i, m', hi, hx⟩
+            rcases (hget i m').mp hi with hi | ⟨_, rfl⟩
+            · exact Or.inl ⟨i, m', hi, hx⟩
+            · exact Or.inr hx
+        · simp only []
+          rw [r4 x]
+          rcases (hget i m').mp hi with hi | ⟨rfl, rfl⟩
+          · have hseen : st.seen.has x = true := (inv.seen_iff x).mpr ⟨i, m', hi, hx⟩
+            have hnot : ¬ (m.firstSet.has x = true) := fun hc => by
+              rw [hdisj x hc] at hseen; exact absurd hseen (by simp)
+            rw [if_neg (fun hc => hnot hc.2)]
+            exact inv.disp_first i m' x hi hx
+          · rw [if_pos ((hclaim x).mpr hx)]
+        · simp only []
+          rw [r4 x]
+          by_cases hx : m.firstSet.has x = true
+          · rw [if_pos ((hclaim x).mpr hx)]
+            exact Or.inr ⟨ms.length, m, (hget _ _).mpr (Or.inr ⟨rfl, rfl⟩), rfl, hx⟩
+          · rw [if_neg (fun hc => hx hc.2)]
+            rcases inv.disp_range x with hneg | ⟨i, m', hi, hd, hx'⟩
+            · exact Or.inl hneg
+            · exact Or.inr ⟨i, m', (hget _ _).mpr (Or.inl hi), hd, hx'⟩
+      have hlen : (ms ++ [m]).length = ms.length + 1 := by simp
+      rw [← hlen] at hl
+      obtain ⟨ms', inv', hall⟩ := ih (ms ++ [m]) _ st' hinv hl
+      exact ⟨m :: ms', by simpa using inv', hb, hall⟩
+
+
+theorem findSome?_unique' {α β : Type} (f : α → Option β) : ∀ (l : List α) (i : Nat) (a : α), l[i]? = some a →
+    (∀ j b, l[j]? = some b → j ≠ i → f b = none) → l.findSome? f = f a := by
+  intro l
+  induction l with
+  | nil => intro i a hi; simp at hi
+  | cons x l ih =>
+    intro i a hi hother
+    rw [List.findSome?_cons]
+    cases i with
+    | zero =>
+      simp only [List.getElem?_cons_zero, Option.some.injEq] at hi
+      subst hi
+      cases hfa : f x with
+      | some b => rfl
+      | none =>
+        simp only []
+        rw [List.findSome?_eq_none_iff]
+        intro y hy
+        obtain ⟨j, hj⟩ := List.getElem?_of_mem hy
+        exact hother (j + 1) y (by simpa using hj) (by omega)
+    | succ i =>
+      have h0 := hother 0 x (by simp) (by omega)
+      rw [h0]
+      simp only [List.getElem?_cons_succ] at hi
+      exact ih i a hi (fun j b hj hne => hother (j + 1) b (by simpa using hj) (by omega))
+
+/-- what the loop invariant gives at the end: the dispatcher's tables describe the branch matchers `ms` -/
+structure BranchDispatcher.WF (d : BranchDispatcher) (ms : List BranchMatcher) : Prop where
+  matchers : d.branchMatchers = ms
+  nonempty : ∀ m ∈ ms, m.minLen ≠ 0
+  disp_first : ∀ (i : Nat) (m : BranchMatcher) x, ms[i]? = some m → m.firstSet.has x = true →
+    d.dispatch.getD x (-1) = (i : Int)
+  disp_range : ∀ x, d.dispatch.getD x (-1) = -1 ∨
+    ∃ (i : Nat) (m : BranchMatcher), ms[i]? = some m ∧ d.dispatch.getD x (-1) = (i : Int) ∧ m.firstSet.has x = true
+
+/-- the key fact: at most ONE branch can match at offset 0 (no branch matches the empty string, so a match starts with a
+    byte of the branch's first set, and the first sets are pairwise disjoint) — hence the result cannot depend on the
+    order of the branches; and a branch matches in exactly one way (`matchFrom` is a function: fixed steps, then the
+    longest admissible tail with nothing after it), hence not on greedy/lazy preference either. -/
+theorem BranchDispatcher.match_unique (d : BranchDispatcher) (ms : List BranchMatcher) (wf : d.WF ms) (h : Bytes)
+    (i j : Nat) (mi mj : BranchMatcher) (hi : ms[i]? = some mi) (hj : ms[j]? = some mj) (ei ej : Nat)
+    (h1 : mi.matchFrom h 0 = some ei) (h2 : mj.matchFrom h 0 = some ej) : i = j := by
+  have f1 := (matchFrom_first mi (wf.nonempty mi (List.mem_of_getElem? hi)) h ei h1).2
+  have f2 := (matchFrom_first mj (wf.nonempty mj (List.mem_of_getElem? hj)) h ej h2).2
+  have d1 := wf.disp_first i mi _ hi f1
+  have d2 := wf.disp_first j mj _ hj f2
+  rw [d1] at d2
+  omega
+
+/-- **dispatch is exact**: the dispatcher returns the match of the FIRST branch (in order) that matches at offset 0 — and
+    at most one branch can (no branch matches the empty string, first-byte sets are pairwise disjoint). -/
+theorem BranchDispatcher.search_eq_first (d : BranchDispatcher) (ms : List BranchMatcher) (wf : d.WF ms) (h : Bytes) :
+    d.search h = (ms.findSome? fun m => m.matchFrom h 0).map fun e => (0, e) := by
+  -- a branch whose first set misses `h[0]` does not match
+  have hmiss : ∀ m ∈ ms, ¬ (0 < h.size ∧ m.firstSet.has (h.at 0) = true) → m.matchFrom h 0 = none := by
+    intro m hm hnot
+    cases hr : m.matchFrom h 0 with
+    | none => rfl
+    | some e => exact absurd (matchFrom_first m (wf.nonempty m hm) h e hr) hnot
+  unfold search
+  by_cases h0 : h.size = 0
+  · rw [if_pos h0]
+    have : ms.findSome? (fun m => m.matchFrom h 0) = none := by
+      rw [List.findSome?_eq_none_iff]
+      intro m hm
+      exact hmiss m hm (fun hc => by omega)
+    rw [this]; rfl
+  · rw [if_neg h0]
+    simp only []
+    rcases wf.disp_range (h.at 0) with hneg | ⟨i, m, hi, hd, hx⟩
+    · rw [hneg]
+      simp only [show ((-1 : Int) < 0) from by omega, if_true]
+      have : ms.findSome? (fun m => m.matchFrom h 0) = none := by
+        rw [List.findSome?_eq_none_iff]
+        intro m hm
+        apply hmiss m hm
+        rintro ⟨_, hx⟩
+        obtain ⟨j, hj⟩ := List.getElem?_of_mem hm
+        have := wf.disp_first j m _ hj hx
+        rw [hneg] at this
+        omega
+      rw [this]; rfl
+    · rw [hd, if_neg (by omega), wf.matchers]
+      simp only [Int.toNat_natCast]
+      rw [List.getD_eq_getElem?_getD, hi]
+      simp only [Option.getD_some]
+      rw [BranchMatcher.match_eq]
+      have huniq : ms.findSome? (fun m => m.matchFrom h 0) = m.matchFrom h 0 := by
+        apply findSome?_unique' _ ms i m hi
+        intro j b hj hne
+        apply hmiss b (List.mem_of_getElem? hj)
+        rintro ⟨_, hx'⟩
+        have := wf.disp_first j b _ hj hx'
+        rw [hd] at this
+        omega
+      rw [huniq]
+      cases m.matchFrom h 0 <;> rfl
+
+theorem branchesBuilt_mem (hasFold : Nat → Bool) : ∀ (bs : List Re) (ms : List BranchMatcher),
+    BranchesBuilt hasFold bs ms → ∀ m ∈ ms, ∃ b ∈ bs, buildBranchMatcher hasFold b = some m := by
+  intro bs
+  induction bs with
+  | nil =>
+    intro ms hb m hm
+    cases ms with
+    | nil => simp at hm
+    | cons _ _ => exact absurd hb (by simp [BranchesBuilt])
+  | cons b bs ih =>
+    intro ms hb m hm
+    cases ms with
+    | nil => exact absurd hb (by simp [BranchesBuilt])
+    | cons m0 ms =>
+      obtain ⟨h1, h2⟩ := hb
+      rcases List.mem_cons.mp hm with rfl | hm
+      · exact ⟨b, by simp, h1⟩
+      · obtain ⟨b', hb', hbuild⟩ := ih ms h2 m hm
+        exact ⟨b', by simp [hb'], hbuild⟩
+
+/-- `NewBranchDispatcher` produces a well-formed dispatcher for the matchers of the branches -/
+theorem newBranchDispatcher_wf (hasFold : Nat → Bool) (alt : Re) (d : BranchDispatcher)
+    (hd : newBranchDispatcher hasFold alt = some d) :
+    (unwrapCaptures alt).op = .alternate ∧
+    ∃ ms, BranchesBuilt hasFold (unwrapCaptures alt).sub ms ∧ d.WF ms := by
+  unfold newBranchDispatcher at hd
+  simp only [] at hd
+  split at hd
+  · exact absurd hd (by simp)
+  rename_i hop
+  split at hd
+  · exact absurd hd (by simp)
+  cases hl : newBranchLoop hasFold (unwrapCaptures alt).sub 0 {} with
+  | none => rw [hl] at hd; exact absurd hd (by simp)
+  | some st =>
+    rw [hl] at hd
+    simp only [Option.map_some, Option.some.injEq] at hd
+    subst hd
+    obtain ⟨ms, inv, hb⟩ := newBranchLoop_inv hasFold _ [] {} st loopInv_init hl
+    simp only [List.nil_append] at inv
+    refine ⟨by simpa using hop, ms, hb, inv.matchers, fun m hm => ?_, inv.disp_first, inv.disp_range⟩
+    obtain ⟨b, _, hbuild⟩ := branchesBuilt_mem hasFold _ ms hb m hm
+    exact (buildBranchMatcher_spec hasFold b m hbuild).2
+
+
+/-! ### the reference matcher on the alternation, the capture wrappers and `\\A` -/
+
+/-- the alternation tries the branches in order; each branch is its matcher -/
+theorem run_alts_built (hasFold : Nat → Bool) (hf : FoldSound hasFold) (h : Bytes) (g : Nat) :
+    ∀ (bs : List Re) (ms : List BranchMatcher), BranchesBuilt hasFold bs ms → (∀ b ∈ bs, depthLe g b = true) →
+      ∀ F pos (k : Nat → Option Nat), (∀ p, k p = some p) → 2 * sumSize g bs + (h.size + 2) + 1 ≤ F →
+        Ref.run h F (.alts bs) pos k = ms.findSome? fun m => m.matchFrom h pos := by
+  intro bs
+  induction bs with
+  | nil =>
+    intro ms hb _ F pos k _ hF
+    cases ms with
+    | nil =>
+      obtain ⟨F, rfl⟩ : ∃ F', F = F' + 1 := ⟨F - 1, by omega⟩
+      rw [Ref.run_alts_nil]; rfl
+    | cons _ _ => exact absurd hb (by simp [BranchesBuilt])
+  | cons b bs ih =>
+    intro ms hb hd F pos k hk hF
+    cases ms with
+    | nil => exact absurd hb (by simp [BranchesBuilt])
+    | cons m ms =>
+      obtain ⟨h1, h2⟩ := hb
+      obtain ⟨F, rfl⟩ : ∃ F', F = F' + 1 := ⟨F - 1, by omega⟩
+      rw [sumSize_cons] at hF
+      have hsb := sizeAux_pos' g b
+      rw [Ref.run_alts_cons, branch_sem hasFold hf h g b m h1 (hd b (by simp)) F pos k hk (by omega),
+        ih ms h2 (fun y hy => hd y (by simp [hy])) F pos k hk (by omega), List.findSome?_cons]
+      unfold Ref.orElse
+      cases m.matchFrom h pos <;> rfl
+
+theorem unwrapCaptures_capture (re x : Re) (hop : re.op = .capture) (hsub : re.sub = [x]) :
+    unwrapCaptures re = unwrapCaptures x := by
+  obtain ⟨op, g, f, sub, r, a, b⟩ := re
+  simp only [Re.op, Re.sub] at hop hsub
+  subst hop hsub
+  rw [unwrapCaptures]
+
+theorem unwrapCaptures_other (re : Re) (hne : ¬ (re.op = .capture ∧ ∃ x, re.sub = [x])) : unwrapCaptures re = re := by
+  obtain ⟨op, g, f, sub, r, a, b⟩ := re
+  simp only [Re.op, Re.sub] at hne
+  unfold unwrapCaptures
+  split
+  · rename_i heq
+    cases heq
+    exact absurd ⟨rfl, _, rfl⟩ hne
+  · rfl
+
+/-- capture groups around the alternation are transparent -/
+theorem run_wrapped_alts (hasFold : Nat → Bool) (hf : FoldSound hasFold) (h : Bytes) :
+    ∀ (g : Nat) (alt : Re) (ms : List BranchMatcher), depthLe g alt = true →
+      (unwrapCaptures alt).op = .alternate → BranchesBuilt hasFold (unwrapCaptures alt).sub ms →
+      ∀ F pos (k : Nat → Option Nat), (∀ p, k p = some p) → 2 * Ref.sizeAux g alt + (h.size + 2) ≤ F →
+        Ref.run h F (.one alt) pos k = ms.findSome? fun m => m.matchFrom h pos := by
+  intro g
+  induction g with
+  | zero => intro alt ms hd; rw [depthLe] at hd; exact absurd hd (by simp)
+  | succ g ih =>
+    intro alt ms hd hop hb F pos k hk hF
+    rw [depthLe, List.all_eq_true] at hd
+    have hsz := sizeAux_succ g alt
+    by_cases hcap : alt.op = .capture ∧ ∃ x, alt.sub = [x]
+    · obtain ⟨hc, x, hsub⟩ := hcap
+      rw [unwrapCaptures_capture alt x hc hsub] at hop hb
+      rw [hsub, sumSize_cons] at hsz
+      obtain ⟨F, rfl⟩ : ∃ F', F = F' + 2 := ⟨F - 2, by omega⟩
+      rw [Ref.run_one, hc]
+      simp only []
+      rw [hsub, Ref.run_seq_cons]
+      have hk' : ∀ p, (fun p => Ref.run h F (.seq []) p k) p = some p := by
+        intro p
+        simp only []
+        obtain ⟨F', hF'⟩ : ∃ F', F = F' + 1 := ⟨F - 1, by have := sizeAux_pos' g x; omega⟩
+        rw [hF', Ref.run_seq_nil, hk]
+      exact ih x ms (hd x (by simp [hsub])) hop hb F pos _ hk' (by omega)
+    · rw [unwrapCaptures_other alt hcap] at hop hb
+      obtain ⟨F, rfl⟩ : ∃ F', F = F' + 1 := ⟨F - 1, by omega⟩
+      rw [Ref.run_one, hop]
+      simp only []
+      exact run_alts_built hasFold hf h g alt.sub ms hb hd F pos k hk (by omega)
+
+theorem fuelFor_ge (re : Re) (h : Bytes) : 2 * Ref.sizeAux 32 re + (h.size + 2) + 8 ≤ Ref.fuelFor re h := by
+  unfold Ref.fuelFor
+  generalize Ref.sizeAux 32 re = s
+  generalize h.size = n
+  have h1 : (s + 2) * 2 ≤ (s + 2) * (n + 2) := Nat.mul_le_mul_left _ (by omega)
+  have h2 : 1 * (n + 2) ≤ (s + 2) * (n + 2) := Nat.mul_le_mul_right _ (by omega)
+  omega
+
+theorem findLoop_none (re : Re) (h : Bytes) : ∀ k s, (∀ s', s ≤ s' → Ref.matchAt re h s' = none) →
+    Ref.findLoop re h k s = none := by
+  intro k
+  induction k with
+  | zero => intro s _; rw [Ref.findLoop]
+  | succ k ih =>
+    intro s hnone
+    rw [Ref.findLoop, hnone s (Nat.le_refl _)]
+    exact ih (s + 1) (fun s' hs' => hnone s' (by omega))
+
+/-- the reference semantics of `\\A(alt)`: a match can only start at 0, and there it is the first matching branch -/
+theorem matchAt_bd (hasFold : Nat → Bool) (hf : FoldSound hasFold) (re a alt : Re) (ms : List BranchMatcher)
+    (hop : re.op = .concat) (hsub : re.sub = [a, alt]) (ha : a.op = .beginText) (hdepth : RefDepthOK re)
+    (halt : (unwrapCaptures alt).op = .alternate) (hb : BranchesBuilt hasFold (unwrapCaptures alt).sub ms)
+    (h : Bytes) (s : Nat) :
+    Ref.matchAt re h s = if s = 0 then ms.findSome? (fun m => m.matchFrom h 0) else none := by
+  unfold Ref.matchAt
+  have hfuel := fuelFor_ge re h
+  unfold RefDepthOK at hdepth
+  rw [depthLe, List.all_eq_true] at hdepth
+  have hsz : Ref.sizeAux 32 re = _ := sizeAux_succ 31 re
+  rw [hsub, sumSize_cons, sumSize_cons] at hsz
+  have hsa := sizeAux_pos' 31 a
+  obtain ⟨F, hF⟩ : ∃ F', Ref.fuelFor re h = F' + 4 := ⟨Ref.fuelFor re h - 4, by omega⟩
+  rw [hF, Ref.run_one, hop]
+  simp only []
+  rw [hsub, Ref.run_seq_cons, Ref.run_one, ha]
+  simp only []
+  by_cases hs : s = 0
+  · subst hs
+    rw [if_pos rfl, if_pos rfl, Ref.run_seq_cons]
+    have hk' : ∀ p, (fun p => Ref.run h (F + 1) (.seq []) p some) p = some p := by
+      intro p
+      simp only []
+      rw [Ref.run_seq_nil]
+    exact run_wrapped_alts hasFold hf h 31 alt ms (hdepth alt (by simp [hsub])) halt hb (F + 1) 0 _ hk' (by omega)
+  · rw [if_neg hs, if_neg hs]
+
+
+/-- the shape `metaBranchDispatcher` (meta/compile.go) and `IsBranchDispatchPattern` agree on -/
+theorem metaBranchDispatcher_shape (hasFold : Nat → Bool) (re : Re) (d : BranchDispatcher)
+    (hd : metaBranchDispatcher hasFold re = some d) :
+    re.op = .concat ∧ ∃ a alt, re.sub = [a, alt] ∧ a.op = .beginText ∧ newBranchDispatcher hasFold alt = some d := by
+  unfold metaBranchDispatcher at hd
+  split at hd
+  · exact absurd hd (by simp)
+  rename_i hop
+  split at hd
+  · rename_i a alt hsub
+    split at hd
+    · exact absurd hd (by simp)
+    rename_i ha
+    exact ⟨by simpa using hop, a, alt, hsub, by simpa using ha, hd⟩
+  · exact absurd hd (by simp)
+
+/-- the predicate accepts exactly the patterns for which meta builds a dispatcher (it never has to fall back) -/
+theorem isBranchDispatchPattern_eq (hasFold : Nat → Bool) (re : Re) :
+    isBranchDispatchPattern hasFold re = (metaBranchDispatcher hasFold re).isSome := by
+  unfold isBranchDispatchPattern branchDispatchAlternation metaBranchDispatcher
+  by_cases hop : re.op ≠ .concat
+  · rw [if_pos hop, if_pos hop]; rfl
+  · rw [if_neg hop, if_neg hop]
+    match hsub : re.sub with
+    | [] => rfl
+    | [_] => rfl
+    | _ :: _ :: _ :: _ => rfl
+    | [a, alt] =>
+      simp only []
+      by_cases ha : a.op ≠ .beginText
+      · rw [if_pos ha, if_pos ha]; rfl
+      · rw [if_neg ha, if_neg ha]
+        by_cases halt : (unwrapCaptures alt).op ≠ .alternate
+        · rw [if_pos halt]
+          simp only []
+          have : newBranchDispatcher hasFold alt = none := by
+            unfold newBranchDispatcher
+            simp only []
+            rw [if_pos halt]
+          rw [this]; rfl
+        · rw [if_neg halt]
+
+/-- **BranchDispatcher end to end**: for EVERY pattern `re` for which meta builds a dispatcher (equivalently: that
+    `IsBranchDispatchPattern` accepts), every haystack and every start offset, the dispatcher returns what the general
+    leftmost-first reference matcher returns for the WHOLE pattern `\\A(b1|…|bk)`. -/
+theorem branchDispatcher_eq_reference (hasFold : Nat → Bool) (hf : FoldSound hasFold) (re : Re) (d : BranchDispatcher)
+    (hd : metaBranchDispatcher hasFold re = some d) (hdepth : RefDepthOK re) (h : Bytes) (a : Nat) :
+    d.searchAt h a = Ref.refFind re h a := by
+  obtain ⟨hop, a0, alt, hsub, ha, hnew⟩ := metaBranchDispatcher_shape hasFold re d hd
+  obtain ⟨halt, ms, hb, wf⟩ := newBranchDispatcher_wf hasFold alt d hnew
+  have hmatch := matchAt_bd hasFold hf re a0 alt ms hop hsub ha hdepth halt hb h
+  unfold BranchDispatcher.searchAt Ref.refFind
+  by_cases ha0 : a = 0
+  · subst ha0
+    rw [if_neg (by simp), BranchDispatcher.search_eq_first d ms wf h]
+    simp only [Nat.sub_zero]
+    rw [Ref.findLoop, hmatch 0, if_pos rfl]
+    cases hr : ms.findSome? (fun m => m.matchFrom h 0) with
+    | some e => rfl
+    | none =>
+      simp only [Option.map_none]
+      rw [findLoop_none]
+      intro s' hs'
+      rw [hmatch s', if_neg (by omega)]
+  · rw [if_pos ha0, findLoop_none]
+    intro s' hs'
+    rw [hmatch s', if_neg (by omega)]
+
+theorem branchDispatcher_isMatch_eq_reference (hasFold : Nat → Bool) (hf : FoldSound hasFold) (re : Re)
+    (d : BranchDispatcher) (hd : metaBranchDispatcher hasFold re = some d) (hdepth : RefDepthOK re) (h : Bytes) :
+    d.isMatch h = (Ref.refFind re h 0).isSome := by
+  rw [← branchDispatcher_eq_reference hasFold hf re d hd hdepth h 0]
+  rfl
 
 end Cx.Fast
